@@ -10,8 +10,8 @@ Argument descriptors (materialised by c09_args.materialise on fresh mallocs):
     OUT(name, size)            output buffer of exactly size octets, canary-filled
     IO(name, bytes)            in/out buffer
     V(name, int)               scalar (size_t / u32 / tm_time_t) or a literal pointer value (0 = null)
-    FN(name, symbol|None)      address of a library function (gen_i = brngCTRStepR) or of a Python callback
-    RNGST(name, key, iv)       state of brngCTR started on (key, iv): a deterministic gen_i tape
+    FN(name, symbol|None)      address of a library function (gen_i = brngHMACStepR) or of a Python callback
+    RNGST(name, key, iv)       state of brngHMAC started on (key, iv): a deterministic gen_i tape
     SZP(name, int)             size_t* in/out
     AT(name, base, off)        pointer into another argument's buffer (deliberate overlap)
     STRUCT(name, image, ptrs)  structure image with pointers to other (hidden) arguments patched in
@@ -72,8 +72,18 @@ def STRUCT(n, data, ptrs=(), out=False, hid=False):
     return {"k": "struct", "n": n, "data": bytes(data), "ptrs": list(ptrs), "out": out, "hid": hid}
 
 
+def PREP(n, f, desc, outsize=None):
+    return {"k": "prep", "n": n, "f": f, "desc": desc, "outsize": outsize}
+
+
 def clone(args):
-    return copy.deepcopy(args)
+    out = []
+    for a in args:
+        b = dict(a)
+        if "ptrs" in b:
+            b["ptrs"] = list(b["ptrs"])
+        out.append(b)
+    return out
 
 
 def put(args, new, name=None):
@@ -115,6 +125,8 @@ def describe(args):
             out.append([a["n"], "size_t*=%d" % a["v"]])
         elif k == "struct":
             out.append([a["n"], "struct[%d]" % len(a["data"]), a["data"][:48].hex()])
+        elif k == "prep":
+            out.append([a["n"], "prepared:" + a["desc"]])
         else:
             out.append([a["n"], k])
     return out
@@ -178,11 +190,26 @@ def rb(r, n):
     return bytes(r.getrandbits(8) for _ in range(n))
 
 
+# The deterministic gen_i tape is the library's brngHMACStepR.  (brngCTRStepR is not suitable: by its documentation it mixes
+# the *previous content* of the output buffer into the stream, and callers such as bignIdSign hand it scratch memory, so the
+# tape would depend on heap garbage and on the word size.)
+GEN_SYM = "brngHMACStepR"
+
+
+def start_gen(lib, key, iv):
+    st = lib.alloc(lib.brngHMAC_keep())
+    lib.brngHMACStart(st, lib.mk(key), len(key), lib.mk(iv), len(iv))
+    return st
+
+
 class Env:
     def __init__(self, lib, base):
         self.lib = lib
         self.base = base
         self.cache = {}
+        for name, ret, args_ in (("bignParamsGen", "u", "pffp"),):
+            if name not in lib.protos:
+                lib.declare(name, ret, args_)
 
     def memo(self, key, f):
         if key not in self.cache:
@@ -196,14 +223,12 @@ class Env:
             raise Harness("setup: %s returned %s" % (fn, errname(ret)))
 
     def rng_args(self, r, name="rng"):
-        """(gen_i, state) pair: the library's brngCTRStepR on a fresh deterministic tape"""
-        return [FN(name, "brngCTRStepR"), RNGST(name + "_state", rb(r, 32), rb(r, 32))]
+        """(gen_i, state) pair: the library's brngHMACStepR on a fresh deterministic tape"""
+        return [FN(name, GEN_SYM), RNGST(name + "_state", rb(r, 32), rb(r, 32))]
 
     def live_rng(self, r):
         lib = self.lib
-        st = lib.alloc(lib.brngCTR_keep())
-        lib.brngCTRStart(st, lib.mk(rb(r, 32)), lib.mk(rb(r, 32)))
-        return lib.addr("brngCTRStepR"), st
+        return lib.addr(GEN_SYM), start_gen(lib, rb(r, 32), rb(r, 32))
 
 
 class Row:
@@ -212,6 +237,7 @@ class Row:
 
 
 ROWS = {}
+NO_VALID = {"bignParamsGen"}      # rows for which no valid call can be formed (documented violation only)
 
 
 def row(name, every=1):
@@ -734,18 +760,14 @@ def _bels_valm(E, r):
     return {"args": args, "cases": cases}
 
 
-def _reducible(ln, r):
-    """m0 such that x^(8 len) + m0(x) is reducible for an elementary reason"""
-    k = r.choice(("zero", "one", "even-weight"))
-    if k == "zero":          # x^n
-        return k, bytes(ln)
-    if k == "one":           # x^n + 1 = (x + 1)(...)
-        return k, bytes([1]) + bytes(ln - 1)
-    # x^n + x^a + x^b + 1 ... an even number of terms => divisible by x + 1: x^n + x^a
+def _reducibles(ln, r):
+    """all m such that x^(8 len) + m(x) is reducible for an elementary reason: [(kind, octets)]"""
     a = r.randrange(1, 8 * ln)
     b = bytearray(ln)
     b[a // 8] |= 1 << (a % 8)
-    return k, bytes(b)
+    return [("m=0: x^n", bytes(ln)),                              # x^n
+            ("m=1: x^n+1", bytes([1]) + bytes(ln - 1)),            # divisible by x + 1
+            ("m=x^a: x^n+x^a", bytes(b))]                         # divisible by x
 
 
 @row("belsGenM0", every=3)
@@ -765,10 +787,11 @@ def _bels_genmi(E, r):
     m0 = _bels_m(E, ln, 0)
     args = [OUT("mi", ln), V("len", ln), IN("m0", m0)] + E.rng_args(r, "ang")
     cases = _bels_len_cases("belsGenMi", lambda a, n: (put(a, OUT("mi", n)), put(a, IN("m0", (m0 * 3)[:n]))))
-    k, bad = _reducible(ln, r)
-    cases.append(C("m0", "reducible", m_in("m0", bad), "ERR_BAD_PUBKEY", "bels.h belsGenMi \\expect{ERR_BAD_PUBKEY} Ключ m0 корректен", "pubkey"))
+    for k, bad in _reducibles(ln, r):
+        cases.append(C("m0", "reducible", m_in("m0", bad), "ERR_BAD_PUBKEY", "bels.h belsGenMi \\expect{ERR_BAD_PUBKEY} Ключ m0 корректен", "pubkey", show=k))
     q = "bels.h belsGenMi \\expect{ERR_BAD_ANG} Генератор ang корректен и выдает неповторяющиеся ключи-кандидаты"
-    cases.append(C("ang", "null", m_many(lambda a: put(a, FN("ang", None)), m_val("ang_state", 0)), "ERR_BAD_ANG", q, "generator"))
+    cases.append(C("ang", "null", m_many(lambda a: put(a, FN("ang", None)), m_val("ang_state", 0)), ("ERR_BAD_ANG", "ERR_BAD_INPUT"),
+                   q + " / bels.h preamble: \\expect{ERR_BAD_INPUT} Все входные указатели действительны", "generator"))
     return {"args": args, "cases": cases}
 
 
@@ -778,8 +801,8 @@ def _bels_genmid(E, r):
     m0 = _bels_m(E, ln, 0)
     args = [OUT("mid", ln), V("len", ln), IN("m0", m0), IN("id", rb(r, il)), V("id_len", il)]
     cases = _bels_len_cases("belsGenMid", lambda a, n: (put(a, OUT("mid", n)), put(a, IN("m0", (m0 * 3)[:n]))))
-    k, bad = _reducible(ln, r)
-    cases.append(C("m0", "reducible", m_in("m0", bad), "ERR_BAD_PUBKEY", "bels.h belsGenMid \\expect{ERR_BAD_PUBKEY} Ключ m0 корректен", "pubkey"))
+    for k, bad in _reducibles(ln, r):
+        cases.append(C("m0", "reducible", m_in("m0", bad), "ERR_BAD_PUBKEY", "bels.h belsGenMid \\expect{ERR_BAD_PUBKEY} Ключ m0 корректен", "pubkey", show=k))
     return {"args": args, "cases": cases}
 
 
@@ -817,19 +840,20 @@ def _bels_share(E, r):
         put(a, OUT("si", c * ln)), put(a, IN("mi", (mi * 20)[:c * ln]))
     cases += _thr_cases("belsShare", sizes, False, count, thr)
     qp = "bels.h belsShare \\expect{ERR_BAD_PUBKEY} Открытые ключи m0, mi корректны и отличаются друг от друга"
-    k, bad = _reducible(ln, r)
-    cases.append(C("m0", "reducible", m_in("m0", bad), "ERR_BAD_PUBKEY", qp, "pubkey"))
+    for k, bad in _reducibles(ln, r):
+        cases.append(C("m0", "reducible", m_in("m0", bad), "ERR_BAD_PUBKEY", qp, "pubkey", show=k))
     j = r.randrange(count)
-    k, bad = _reducible(ln, r)
-    cases.append(C("mi", "reducible", m_in("mi", mi[:j * ln] + bad + mi[(j + 1) * ln:]), "ERR_BAD_PUBKEY", qp, "pubkey", show=k))
+    for k, bad in _reducibles(ln, r):
+        cases.append(C("mi", "reducible", m_in("mi", mi[:j * ln] + bad + mi[(j + 1) * ln:]), "ERR_BAD_PUBKEY", qp, "pubkey", show=k))
     if count >= 2:
         a_, b_ = r.sample(range(count), 2)
         dup = bytearray(mi)
         dup[a_ * ln:(a_ + 1) * ln] = mi[b_ * ln:(b_ + 1) * ln]
-        cases.append(C("mi", "two-equal-keys", m_in("mi", bytes(dup)), "ERR_BAD_PUBKEY", qp, "pubkey"))
-    cases.append(C("mi", "mi=m0", m_in("mi", m0 + mi[ln:]), "ERR_BAD_PUBKEY", qp, "pubkey"))
-    cases.append(C("rng", "null", m_many(lambda a: put(a, FN("rng", None)), m_val("rng_state", 0)), "ERR_BAD_RNG",
-                   "bels.h belsShare \\expect{ERR_BAD_RNG} Генератор rng (с состоянием rng_state) корректен", "generator"))
+        cases.append(C("mi[i],mi[j]", "equal", m_in("mi", bytes(dup)), "ERR_BAD_PUBKEY", qp, "pubkey"))
+    cases.append(C("mi[0],m0", "equal", m_in("mi", m0 + mi[ln:]), "ERR_BAD_PUBKEY", qp, "pubkey"))
+    cases.append(C("rng", "null", m_many(lambda a: put(a, FN("rng", None)), m_val("rng_state", 0)), ("ERR_BAD_RNG", "ERR_BAD_INPUT"),
+                   "bels.h belsShare \\expect{ERR_BAD_RNG} Генератор rng (с состоянием rng_state) корректен / bels.h preamble: "
+                   "\\expect{ERR_BAD_INPUT} Все входные указатели действительны", "generator"))
     return {"args": args, "cases": cases}
 
 
@@ -848,8 +872,9 @@ def _share23(fn, with_rng):
         cases = _bels_len_cases(fn, resize_len)
         cases += _thr_cases(fn, lambda a, c: put(a, OUT("si", min(c, 300) * (ln + 1))), True, count, thr)
         if with_rng:
-            cases.append(C("rng", "null", m_many(lambda a: put(a, FN("rng", None)), m_val("rng_state", 0)), "ERR_BAD_RNG",
-                           "bels.h %s \\expect{ERR_BAD_RNG} Генератор rng (с состоянием rng_state) корректен" % fn, "generator"))
+            cases.append(C("rng", "null", m_many(lambda a: put(a, FN("rng", None)), m_val("rng_state", 0)), ("ERR_BAD_RNG", "ERR_BAD_INPUT"),
+                           "bels.h %s \\expect{ERR_BAD_RNG} Генератор rng (с состоянием rng_state) корректен / bels.h preamble: "
+                           "\\expect{ERR_BAD_INPUT} Все входные указатели действительны" % fn, "generator"))
         return {"args": args, "cases": cases}
     return build
 
@@ -879,16 +904,17 @@ def _bels_recover(E, r):
         put(a, OUT("s", n)), put(a, IN("si", (si * 3)[:count * n])), put(a, IN("m0", (m0 * 3)[:n])), put(a, IN("mi", (mi * 3)[:count * n]))
     cases = _bels_len_cases("belsRecover", resize_len)
     qp = "bels.h belsRecover \\expect{ERR_BAD_PUBKEY} Открытые ключи m0, mi корректны и отличаются друг от друга"
-    k, bad = _reducible(ln, r)
-    cases.append(C("m0", "reducible", m_in("m0", bad), "ERR_BAD_PUBKEY", qp, "pubkey"))
+    for k, bad in _reducibles(ln, r):
+        cases.append(C("m0", "reducible", m_in("m0", bad), "ERR_BAD_PUBKEY", qp, "pubkey", show=k))
     j = r.randrange(count)
-    k, bad = _reducible(ln, r)
-    cases.append(C("mi", "reducible", m_in("mi", mi[:j * ln] + bad + mi[(j + 1) * ln:]), "ERR_BAD_PUBKEY", qp, "pubkey", show=k))
+    for k, bad in _reducibles(ln, r):
+        cases.append(C("mi", "reducible", m_in("mi", mi[:j * ln] + bad + mi[(j + 1) * ln:]), "ERR_BAD_PUBKEY", qp, "pubkey", show=k))
     if count >= 2:
         a_, b_ = r.sample(range(count), 2)
         dup = bytearray(mi)
         dup[a_ * ln:(a_ + 1) * ln] = mi[b_ * ln:(b_ + 1) * ln]
-        cases.append(C("mi", "two-equal-keys", m_in("mi", bytes(dup)), "ERR_BAD_PUBKEY", qp, "pubkey"))
+        cases.append(C("mi[i],mi[j]", "equal", m_in("mi", bytes(dup)), "ERR_BAD_PUBKEY", qp, "pubkey"))
+    cases.append(C("mi[0],m0", "equal", m_in("mi", m0 + mi[ln:]), "ERR_BAD_PUBKEY", qp, "pubkey"))
     return {"args": args, "cases": cases}
 
 
@@ -944,3 +970,1805 @@ GROUPS = [
 
 # group -> (workers in quick, workers in thorough)
 SPLIT = {"belt-modes": (2, 4), "belt-disk": (1, 2), "belt-aead": (2, 4), "belt-fmt-e": (1, 2), "belt-fmt-d": (1, 2), "bash-brng-botp": (2, 4), "bels": (2, 4)}
+
+
+# ===========================================================================
+# bign.h / bign96.h
+# ===========================================================================
+
+BIGN_OID = {128: "1.2.112.0.2.0.34.101.45.3.1", 192: "1.2.112.0.2.0.34.101.45.3.2", 256: "1.2.112.0.2.0.34.101.45.3.3",
+            96: "1.2.112.0.2.0.34.101.45.3.0"}
+HASH_OID = "1.2.112.0.2.0.34.101.31.81"
+PARAMS_SIZE = 8 + 5 * 64 + 8
+
+
+class Curve:
+    """a standard parameter set as loaded by the library, plus its integers (for building off-curve / out-of-range keys)"""
+
+    def __init__(self, E, l):
+        lib = E.lib
+        self.l = l
+        self.pfx = "bign96" if l == 96 else "bign"
+        p = lib.alloc(PARAMS_SIZE, 0)        # bign96ParamsStd does not clear the unused octets of the structure
+        E.call_ok(self.pfx + "ParamsStd", p, lib.cstr(BIGN_OID[l]))
+        self.image = lib.rd(p, PARAMS_SIZE)
+        no = self.no = l // 4
+        f = lambda i: int.from_bytes(self.image[8 + 64 * i: 8 + 64 * i + no], "little")
+        self.p, self.a, self.b, self.q, self.yG = f(0), f(1), f(2), f(3), f(4)
+        pn = lib.alloc(8)
+        E.call_ok("bignOidToDER", 0, pn, lib.cstr(HASH_OID))
+        n = lib.rd_size(pn)
+        o = lib.alloc(n)
+        E.call_ok("bignOidToDER", o, pn, lib.cstr(HASH_OID))
+        self.oid_der = lib.rd(o, n)
+        lib.release()
+
+    def on_curve(self, x, y):
+        return x < self.p and y < self.p and (y * y - (x * x * x + self.a * x + self.b)) % self.p == 0
+
+    def enc(self, x, y):
+        return x.to_bytes(self.no, "little") + y.to_bytes(self.no, "little")
+
+    def keypair(self, E, r):
+        lib = E.lib
+        gen, st = E.live_rng(r)
+        d, Q = lib.alloc(self.no), lib.alloc(2 * self.no)
+        E.call_ok(self.pfx + "KeypairGen", d, Q, lib.mk(self.image), gen, st)
+        out = lib.rd(d, self.no), lib.rd(Q, 2 * self.no)
+        lib.release()
+        return out
+
+    def with_field(self, idx, data):
+        """image with field idx (0 = p .. 4 = yG) replaced"""
+        b = bytearray(self.image)
+        b[8 + 64 * idx: 8 + 64 * idx + len(data)] = data
+        return bytes(b)
+
+    def with_l(self, l):
+        return (l & SIZE_MAX).to_bytes(8, "little") + self.image[8:]
+
+
+def curve(E, l):
+    return E.memo(("curve", l), lambda: Curve(E, l))
+
+
+def params_cases(fn, cv, hdr, r, argname="params", expect="ERR_BAD_PARAMS", full=True):
+    q = "%s %s \\expect{ERR_BAD_PARAMS} Параметры params корректны" % (hdr, fn)
+    if expect == "ANY":
+        q = "%s %s: \\return ERR_OK, если параметры корректны, и код ошибки в противном случае" % (hdr, fn)
+    out = []
+    ls = [0, 1, 64, 127, 129, 160, 191, 255, 257, 384, 512, 1 << 32, SIZE_MAX]
+    ls += [x for x in (96, 128, 192, 256) if x != cv.l] if cv.l == 96 else []
+    for l in (ls if full else r.sample(ls, 4)):
+        out.append(C(argname + ".l", l, m_in(argname, cv.with_l(l)), expect, q + " (bign_params.l: 128, 192 или 256)", "level"))
+    if cv.l != 96:
+        no = cv.no
+        muts = [("p-even", cv.with_field(0, (cv.p - 1).to_bytes(no, "little"))),
+                ("p-top-bit-clear", cv.with_field(0, (cv.p & ~(1 << (8 * no - 1))).to_bytes(no, "little"))),
+                ("a-zero", cv.with_field(1, bytes(no))), ("b-zero", cv.with_field(2, bytes(no))),
+                ("q-even", cv.with_field(3, (cv.q - 1).to_bytes(no, "little")))]
+        if no < 64:
+            b = bytearray(cv.image)
+            b[8 + no + r.randrange(64 - no)] = 1 + r.randrange(255)
+            muts.append(("p-unused-octets-nonzero", bytes(b)))
+        for name, img in (muts if full else r.sample(muts, 2)):
+            out.append(C(argname, name, m_in(argname, img), expect, q + " (bign.h: 2^{l-1} < p, q < 2^l, p = 3 mod 4, a, b != 0, "
+                         "неиспользуемые октеты должны быть нулевыми)", "params"))
+    return out
+
+
+def oid_cases(fn, cv, hdr, r):
+    q = "%s %s \\expect{ERR_BAD_OID} Идентификатор oid_der корректен" % (hdr, fn)
+    d = cv.oid_der
+    bad = [("empty", b"", 0), ("truncated", d[:-1], len(d) - 1), ("trailing-octet", d + b"\0", len(d) + 1),
+           ("wrong-tag", bytes([0x04]) + d[1:], len(d)), ("length-octet+1", bytes([d[0], d[1] + 1]) + d[2:], len(d)),
+           ("unterminated-arc", d[:-1] + bytes([d[-1] | 0x80]), len(d)), ("oid_len=SIZE_MAX", d, SIZE_MAX),
+           ("leading-0x80-arc", d[:2] + b"\x80" + d[3:], len(d))]
+    out = []
+    for name, data, ln in bad:
+        out.append(C("oid_der", name, m_many(m_in("oid_der", data), m_val("oid_len", ln)), "ERR_BAD_OID", q, "identifier"))
+    return out
+
+
+def bad_privkeys(cv):
+    no = cv.no
+    return [("0", bytes(no)), ("q", cv.q.to_bytes(no, "little")), ("q+1", (cv.q + 1).to_bytes(no, "little")),
+            ("2^(8no)-1", b"\xff" * no)]
+
+
+def privkey_cases(fn, cv, hdr, name="privkey", expect="ERR_BAD_PRIVKEY", quote=None):
+    q = quote or "%s %s \\expect{ERR_BAD_PRIVKEY} Личный ключ privkey корректен" % (hdr, fn)
+    return [C(name, k, m_in(name, v), expect, q, "privkey") for k, v in bad_privkeys(cv)]
+
+
+def bad_pubkeys(cv, Q, r):
+    """(class, how, encoding): points off the curve (decided here, y^2 = x^3 + ax + b mod p) and coordinates >= p"""
+    no = cv.no
+    x, y = int.from_bytes(Q[:no], "little"), int.from_bytes(Q[no:], "little")
+    out = []
+    y2 = y ^ (1 << r.randrange(8 * no - 2))
+    if not cv.on_curve(x, y2) and y2 < cv.p:
+        out.append(("off-curve", "y-bit-flipped", cv.enc(x, y2)))
+    x2 = x ^ (1 << r.randrange(8 * no - 2))
+    if not cv.on_curve(x2, y) and x2 < cv.p:
+        out.append(("off-curve", "x-bit-flipped", cv.enc(x2, y)))
+    if not cv.on_curve((x + 1) % cv.p, cv.p - y):
+        out.append(("off-curve", "(x+1,-y)", cv.enc((x + 1) % cv.p, cv.p - y)))
+    if not cv.on_curve(0, 0):
+        out.append(("zero-point", "(0,0)", bytes(2 * no)))
+    out.append(("coord>=p", "x=p", cv.enc(cv.p, y)))
+    out.append(("coord>=p", "y=p", cv.enc(x, cv.p)))
+    out.append(("coord>=p", "x=ff..ff", b"\xff" * no + Q[no:]))
+    out.append(("coord>=p", "y=ff..ff", Q[:no] + b"\xff" * no))
+    return out
+
+
+def pubkey_cases(fn, cv, hdr, Q, r, name="pubkey", expect="ERR_BAD_PUBKEY", quote=None):
+    q = quote or "%s %s \\expect{ERR_BAD_PUBKEY} Открытый ключ pubkey корректен" % (hdr, fn)
+    return [C(name, k, m_in(name, v), expect, q, "pubkey", show=how) for k, how, v in bad_pubkeys(cv, Q, r)]
+
+
+Q_PTR = " / preamble of the header: \\expect{ERR_BAD_INPUT} Все входные указатели корректны"
+
+
+def rng_null_case(fn, hdr, cls="ERR_BAD_RNG"):
+    # a null generator is at the same time an incorrect input pointer: either listed class
+    return C("rng", "null", m_many(lambda a: put(a, FN("rng", None)), m_val("rng_state", 0)), (cls, "ERR_BAD_INPUT"),
+             "%s %s \\expect{%s} Генератор rng (с состоянием rng_state) корректен" % (hdr, fn, cls) + Q_PTR, "generator")
+
+
+def _levels(r, pfx):
+    return 96 if pfx == "bign96" else r.choice((128, 192, 256))
+
+
+def _std_row(fn, oid_ok, size, bad):
+    def build(E, r):
+        name = r.choice(oid_ok)
+        # zero-filled rather than canary-filled: bign96ParamsStd leaves the unused octets of the structure as they were
+        args = [IO("params", bytes(size)), IN("name", name.encode() + b"\0")]
+        q = "%s: 'Поддерживаются следующие имена: ...' \\return ERR_OK, если параметры успешно загружены, и код ошибки в противном случае" % fn
+        cases = [C("name", "unsupported", m_in("name", s.encode() + b"\0"), "ANY", q, "identifier", show=s) for s in bad]
+        return {"args": args, "cases": cases}
+    return build
+
+
+ROWS["bignParamsStd"] = Row(_std_row("bignParamsStd", [BIGN_OID[128], BIGN_OID[192], BIGN_OID[256]], PARAMS_SIZE,
+                                     ["", "1", "1.2.112.0.2.0.34.101.45.3.0", "1.2.112.0.2.0.34.101.45.3.4", "1.2.112.0.2.0.34.101.45.3",
+                                      "1.2.112.0.2.0.34.101.45.3.1.", "1.2.112.0.2.0.34.101.45.3.11", "bign-curve256v1", "test"]))
+ROWS["bign96ParamsStd"] = Row(_std_row("bign96ParamsStd", [BIGN_OID[96]], PARAMS_SIZE,
+                                       ["", "1.2.112.0.2.0.34.101.45.3.1", "1.2.112.0.2.0.34.101.45.3.00", "1.2.112.0.2.0.34.101.45.3", "bign-curve192v1"]))
+
+
+def _params_val_row(pfx):
+    def build(E, r):
+        cv = curve(E, _levels(r, pfx))
+        args = [IN("params", cv.image)]
+        cases = params_cases(pfx + "ParamsVal", cv, pfx + ".h", r, expect="ANY")
+        # yG replaced by p - yG + 1 ... a base point off the curve
+        no = cv.no
+        if not cv.on_curve(0, (cv.yG + 1) % cv.p):
+            cases.append(C("params", "yG+1", m_in("params", cv.with_field(4, ((cv.yG + 1) % cv.p).to_bytes(no, "little"))), "ANY",
+                           "%s.h %sParamsVal: \\return ERR_OK, если параметры корректны, и код ошибки в противном случае" % (pfx, pfx), "params"))
+        return {"args": args, "cases": cases}
+    return build
+
+
+ROWS["bignParamsVal"] = Row(_params_val_row("bign"), every=2)
+ROWS["bign96ParamsVal"] = Row(_params_val_row("bign96"), every=2)
+
+
+@row("bignParamsGen")
+def _bign_params_gen(E, r):
+    cv = curve(E, r.choice((128, 192, 256)))
+    args = [IO("params", cv.image), V("calc_q", 0), V("on_seed", 0), V("state", 0)]
+    # no valid call can be formed without a point-counting callback: the row consists of the documented violation only
+    return {"args": args, "novalid": True,
+            "cases": [C("calc_q", "null", lambda a: None, "ERR_BAD_INPUT", "bign.h bignParamsGen \\expect{ERR_BAD_INPUT} calc_q != 0", "generator")]}
+
+
+def _keypair_gen_row(pfx):
+    def build(E, r):
+        cv = curve(E, _levels(r, pfx))
+        fn = pfx + "KeypairGen"
+        args = [OUT("privkey", cv.no), OUT("pubkey", 2 * cv.no), IN("params", cv.image)] + E.rng_args(r)
+        return {"args": args, "cases": params_cases(fn, cv, pfx + ".h", r) + [rng_null_case(fn, pfx + ".h")]}
+    return build
+
+
+def _keypair_val_row(pfx):
+    def build(E, r):
+        cv = curve(E, _levels(r, pfx))
+        fn = pfx + "KeypairVal"
+        d, Q = cv.keypair(E, r)
+        d2, Q2 = cv.keypair(E, r)
+        args = [IN("params", cv.image), IN("privkey", d), IN("pubkey", Q)]
+        q = "%s.h %s: \\return ERR_OK, если пара корректна, и код ошибки в противном случае" % (pfx, fn)
+        cases = params_cases(fn, cv, pfx + ".h", r, full=False)
+        cases += privkey_cases(fn, cv, pfx + ".h", expect="ANY", quote=q)
+        cases += pubkey_cases(fn, cv, pfx + ".h", Q, r, expect="ANY", quote=q)
+        cases.append(C("pubkey", "other-key", m_in("pubkey", Q2), "ANY", q, "pubkey"))
+        return {"args": args, "cases": cases}
+    return build
+
+
+def _pubkey_val_row(pfx):
+    def build(E, r):
+        cv = curve(E, _levels(r, pfx))
+        fn = pfx + "PubkeyVal"
+        d, Q = cv.keypair(E, r)
+        args = [IN("params", cv.image), IN("pubkey", Q)]
+        q = "%s.h %s: \\return ERR_OK, если ключ корректен, и код ошибки в противном случае" % (pfx, fn)
+        return {"args": args, "cases": params_cases(fn, cv, pfx + ".h", r, full=False) + pubkey_cases(fn, cv, pfx + ".h", Q, r, expect="ANY", quote=q)}
+    return build
+
+
+def _pubkey_calc_row(pfx):
+    def build(E, r):
+        cv = curve(E, _levels(r, pfx))
+        fn = pfx + "PubkeyCalc"
+        d, Q = cv.keypair(E, r)
+        args = [OUT("pubkey", 2 * cv.no), IN("params", cv.image), IN("privkey", d)]
+        return {"args": args, "cases": params_cases(fn, cv, pfx + ".h", r, full=False) + privkey_cases(fn, cv, pfx + ".h")}
+    return build
+
+
+for _pfx in ("bign", "bign96"):
+    ROWS[_pfx + "KeypairGen"] = Row(_keypair_gen_row(_pfx))
+    ROWS[_pfx + "KeypairVal"] = Row(_keypair_val_row(_pfx))
+    ROWS[_pfx + "PubkeyVal"] = Row(_pubkey_val_row(_pfx))
+    ROWS[_pfx + "PubkeyCalc"] = Row(_pubkey_calc_row(_pfx))
+
+
+@row("bignDH")
+def _bign_dh(E, r):
+    cv = curve(E, r.choice((128, 192, 256)))
+    d, _ = cv.keypair(E, r)
+    _, Q = cv.keypair(E, r)
+    kl = r.choice((0, 1, 32, cv.no, 2 * cv.no))
+    args = [OUT("key", kl), IN("params", cv.image), IN("privkey", d), IN("pubkey", Q), V("key_len", kl)]
+    cases = params_cases("bignDH", cv, "bign.h", r, full=False) + privkey_cases("bignDH", cv, "bign.h") + pubkey_cases("bignDH", cv, "bign.h", Q, r)
+    q = "bign.h bignDH \\expect{ERR_BAD_SHAREDKEY} key_len <= l / 2"
+    for v in (2 * cv.no + 1, 2 * cv.no + 2, 4 * cv.no, 1 << 32, SIZE_MAX):
+        n = v if v <= 4096 else 2 * cv.no
+        cases.append(C("key_len", {SIZE_MAX: "SIZE_MAX", 1 << 32: "2^32"}.get(v, "l/2+%d" % (v - 2 * cv.no)),
+                       m_many(m_val("key_len", v), lambda a, n=n: put(a, OUT("key", n))), "ERR_BAD_SHAREDKEY", q, "length"))
+    return {"args": args, "cases": cases}
+
+
+def _sig_len(l):
+    return 34 if l == 96 else 3 * l // 8
+
+
+def _overlap_sig_hash(fn, hdr, no, siglen):
+    q = "%s %s \\expect{ERR_BAD_INPUT} Буферы sig и hash не пересекаются" % (hdr, fn)
+    out = []
+    out.append(C("sig~hash", "hash-at-sig-start", lambda a: (put(a, IO("sig", arg(a, "hash")["data"] + bytes(siglen - no))), put(a, AT("hash", "sig", 0))),
+                 "ERR_BAD_INPUT", q, "overlap"))
+    out.append(C("sig~hash", "hash-at-sig-end", lambda a: (put(a, IO("sig", bytes(siglen - no) + arg(a, "hash")["data"])), put(a, AT("hash", "sig", siglen - no))),
+                 "ERR_BAD_INPUT", q, "overlap"))
+
+    def one(a):
+        h = arg(a, "hash")["data"]
+        put(a, IO("sig", bytes(siglen - 1) + h))      # arena: sig = [0, siglen), hash = [siglen-1, siglen-1+no)
+        put(a, AT("hash", "sig", siglen - 1))
+    out.append(C("sig~hash", "one-octet-common", one, "ERR_BAD_INPUT", q, "overlap"))
+    return out
+
+
+def _sign_row(pfx, det):
+    def build(E, r):
+        cv = curve(E, _levels(r, pfx))
+        fn = pfx + ("Sign2" if det else "Sign")
+        hdr = pfx + ".h"
+        d, Q = cv.keypair(E, r)
+        h = rb(r, cv.no)
+        args = [OUT("sig", _sig_len(cv.l)), IN("params", cv.image), IN("oid_der", cv.oid_der), V("oid_len", len(cv.oid_der)),
+                IN("hash", h), IN("privkey", d)]
+        if det:
+            tl = r.choice((0, 1, 16, 40))
+            args += [V("t", 0), V("t_len", 0)] if r.random() < 0.3 else [IN("t", rb(r, tl)), V("t_len", tl)]
+        else:
+            args += E.rng_args(r)
+        cases = params_cases(fn, cv, hdr, r, full=False) + oid_cases(fn, cv, hdr, r) + privkey_cases(fn, cv, hdr)
+        cases += _overlap_sig_hash(fn, hdr, cv.no, _sig_len(cv.l))
+        if not det:
+            cases.append(rng_null_case(fn, hdr))
+        return {"args": args, "cases": cases}
+    return build
+
+
+def _flip(b, i, bit=1):
+    return b[:i] + bytes([b[i] ^ bit]) + b[i + 1:]
+
+
+def _sign(E, cv, r, h, d, fn=None):
+    lib = E.lib
+    s = lib.alloc(_sig_len(cv.l))
+    E.call_ok(fn or (cv.pfx + "Sign2"), s, lib.mk(cv.image), lib.mk(cv.oid_der), len(cv.oid_der), lib.mk(h), lib.mk(d), 0, 0)
+    out = lib.rd(s, _sig_len(cv.l))
+    lib.release()
+    return out
+
+
+def _verify_row(pfx):
+    def build(E, r):
+        cv = curve(E, _levels(r, pfx))
+        fn, hdr = pfx + "Verify", pfx + ".h"
+        d, Q = cv.keypair(E, r)
+        h = rb(r, cv.no)
+        sig = _sign(E, cv, r, h, d)
+        args = [IN("params", cv.image), IN("oid_der", cv.oid_der), V("oid_len", len(cv.oid_der)), IN("hash", h), IN("sig", sig), IN("pubkey", Q)]
+        q = "%s %s \\remark При нарушении ограничений на ЭЦП возвращается код ERR_BAD_SIG" % (hdr, fn)
+        # a signature cannot be valid under a key that is not a key: both documented conditions are violated at once and
+        # the header orders nothing between them -> either listed class
+        cases = params_cases(fn, cv, hdr, r, full=False) + oid_cases(fn, cv, hdr, r)
+        cases += pubkey_cases(fn, cv, hdr, Q, r, expect=("ERR_BAD_PUBKEY", "ERR_BAD_SIG"),
+                              quote="%s %s \\expect{ERR_BAD_PUBKEY} Открытый ключ pubkey корректен / " % (hdr, fn) + q)
+        n0 = len(sig) - cv.no      # S0 part
+        cases.append(C("sig", "S0-bit-flipped", m_in("sig", _flip(sig, r.randrange(n0), 1 << r.randrange(8))), "ERR_BAD_SIG", q, "auth"))
+        cases.append(C("sig", "S1-bit-flipped", m_in("sig", _flip(sig, n0 + r.randrange(cv.no - 1), 1 << r.randrange(8))), "ERR_BAD_SIG", q, "auth"))
+        cases.append(C("sig", "S1=q", m_in("sig", sig[:n0] + cv.q.to_bytes(cv.no, "little")), "ERR_BAD_SIG", q, "auth"))
+        cases.append(C("sig", "S1=all-ff", m_in("sig", sig[:n0] + b"\xff" * cv.no), "ERR_BAD_SIG", q, "auth"))
+        cases.append(C("hash", "bit-flipped", m_in("hash", _flip(h, r.randrange(cv.no), 1 << r.randrange(8))), "ERR_BAD_SIG", q, "auth"))
+        _, Q2 = cv.keypair(E, r)
+        cases.append(C("pubkey", "other-valid-key", m_in("pubkey", Q2), "ERR_BAD_SIG", q, "auth"))
+        return {"args": args, "cases": cases}
+    return build
+
+
+for _pfx in ("bign", "bign96"):
+    ROWS[_pfx + "Sign"] = Row(_sign_row(_pfx, False))
+    ROWS[_pfx + "Sign2"] = Row(_sign_row(_pfx, True))
+    ROWS[_pfx + "Verify"] = Row(_verify_row(_pfx))
+
+
+@row("bignKeyWrap")
+def _bign_keywrap(E, r):
+    cv = curve(E, r.choice((128, 192, 256)))
+    _, Q = cv.keypair(E, r)
+    ln = r.choice((16, 17, 32, 33, 64))
+    nullhdr = r.random() < 0.3
+    args = [OUT("token", cv.no + 16 + ln), IN("params", cv.image), IN("key", rb(r, ln)), V("len", ln),
+            V("header", 0) if nullhdr else IN("header", rb(r, 16)), IN("pubkey", Q)] + E.rng_args(r)
+    cases = params_cases("bignKeyWrap", cv, "bign.h", r, full=False) + pubkey_cases("bignKeyWrap", cv, "bign.h", Q, r)
+    q = "bign.h bignKeyWrap \\expect{ERR_BAD_INPUT} len >= 16"
+    for v in (0, 1, 15):
+        cases.append(C("len", v, m_many(m_val("len", v), m_in("key", bytes(range(v))), lambda a, v=v: put(a, OUT("token", cv.no + 16 + v))),
+                       "ERR_BAD_INPUT", q, "length"))
+    cases.append(rng_null_case("bignKeyWrap", "bign.h"))
+    return {"args": args, "cases": cases}
+
+
+@row("bignKeyUnwrap")
+def _bign_keyunwrap(E, r):
+    lib = E.lib
+    cv = curve(E, r.choice((128, 192, 256)))
+    d, Q = cv.keypair(E, r)
+    d2, _ = cv.keypair(E, r)
+    ln = r.choice((16, 17, 32, 33, 64))
+    nullhdr = r.random() < 0.3
+    key, hdr = rb(r, ln), (bytes(16) if nullhdr else rb(r, 16))
+    gen, st = E.live_rng(r)
+    t = lib.alloc(cv.no + 16 + ln)
+    E.call_ok("bignKeyWrap", t, lib.mk(cv.image), lib.mk(key), ln, lib.mk(hdr), lib.mk(Q), gen, st)
+    tok = lib.rd(t, cv.no + 16 + ln)
+    lib.release()
+    args = [OUT("key", ln), IN("params", cv.image), IN("token", tok), V("len", len(tok)),
+            V("header", 0) if nullhdr else IN("header", hdr), IN("privkey", d)]
+    cases = params_cases("bignKeyUnwrap", cv, "bign.h", r, full=False) + privkey_cases("bignKeyUnwrap", cv, "bign.h")
+    q = ("bign.h bignKeyUnwrap \\remark При нарушении целостности токена возвращается код ERR_BAD_KEYTOKEN. "
+         "Этот код будет возвращен, если len < 32 + l / 4")
+    for v in (0, 1, 16, cv.no, cv.no + 16, cv.no + 31):
+        cases.append(C("len", {0: 0, 1: 1, 16: 16}.get(v, "l/4+%d" % (v - cv.no)), m_many(m_val("len", v), m_in("token", tok[:v]),
+                                                                                  lambda a, v=v: put(a, OUT("key", max(0, v - cv.no - 16)))),
+                       "ERR_BAD_KEYTOKEN", q, "length"))
+    n = len(tok)
+    for name, i in (("R-part", r.randrange(cv.no)), ("key-part", cv.no + r.randrange(ln)), ("header-part", n - 16 + r.randrange(16)), ("last-octet", n - 1)):
+        cases.append(C("token", name + "-bit-flipped", m_in("token", _flip(tok, i, 1 << r.randrange(8))), "ERR_BAD_KEYTOKEN", q, "release", secret=key))
+    cases.append(C("header", "other-header", m_in("header", _flip(hdr, r.randrange(16), 2)), "ERR_BAD_KEYTOKEN", q, "release", secret=key))
+    cases.append(C("privkey", "other-valid-key", m_in("privkey", d2), "ERR_BAD_KEYTOKEN", q, "release", secret=key))
+    if ln > 16:
+        cases.append(C("len", "truncated-token", m_many(m_val("len", n - 1), m_in("token", tok[:-1]), lambda a: put(a, OUT("key", ln - 1))),
+                       "ERR_BAD_KEYTOKEN", q, "release", secret=key))
+    return {"args": args, "cases": cases}
+
+
+def _id_material(E, r):
+    """trusted party's key pair, a signed identifier and the extracted identity keys"""
+    lib = E.lib
+    cv = curve(E, r.choice((128, 192, 256)))
+    d, Q = cv.keypair(E, r)
+    id_hash = rb(r, cv.no)
+    sig = _sign(E, cv, r, id_hash, d)
+    ip, iq = lib.alloc(cv.no), lib.alloc(2 * cv.no)
+    E.call_ok("bignIdExtract", ip, iq, lib.mk(cv.image), lib.mk(cv.oid_der), len(cv.oid_der), lib.mk(id_hash), lib.mk(sig), lib.mk(Q))
+    out = cv, d, Q, id_hash, sig, lib.rd(ip, cv.no), lib.rd(iq, 2 * cv.no)
+    lib.release()
+    return out
+
+
+@row("bignIdExtract")
+def _bign_idextract(E, r):
+    cv, d, Q, id_hash, sig, ip, iq = _id_material(E, r)
+    args = [OUT("id_privkey", cv.no), OUT("id_pubkey", 2 * cv.no), IN("params", cv.image), IN("oid_der", cv.oid_der),
+            V("oid_len", len(cv.oid_der)), IN("id_hash", id_hash), IN("sig", sig), IN("pubkey", Q)]
+    cases = params_cases("bignIdExtract", cv, "bign.h", r, full=False) + oid_cases("bignIdExtract", cv, "bign.h", r)
+    q = "bign.h bignIdExtract \\remark Если подпись некорректна, то будет возвращен код ERR_BAD_SIG"
+    cases += pubkey_cases("bignIdExtract", cv, "bign.h", Q, r, expect=("ERR_BAD_PUBKEY", "ERR_BAD_SIG"),
+                          quote="bign.h bignIdExtract \\expect{ERR_BAD_PUBKEY} Открытый ключ pubkey корректен / " + q)
+    n0 = len(sig) - cv.no
+    cases.append(C("sig", "S0-bit-flipped", m_in("sig", _flip(sig, r.randrange(n0), 1 << r.randrange(8))), "ERR_BAD_SIG", q, "auth"))
+    cases.append(C("sig", "S1-bit-flipped", m_in("sig", _flip(sig, n0 + r.randrange(cv.no - 1), 1 << r.randrange(8))), "ERR_BAD_SIG", q, "auth"))
+    cases.append(C("sig", "S1=q", m_in("sig", sig[:n0] + cv.q.to_bytes(cv.no, "little")), "ERR_BAD_SIG", q, "auth"))
+    cases.append(C("id_hash", "bit-flipped", m_in("id_hash", _flip(id_hash, r.randrange(cv.no), 1 << r.randrange(8))), "ERR_BAD_SIG", q, "auth"))
+    return {"args": args, "cases": cases}
+
+
+def _idsign_row(det):
+    def build(E, r):
+        cv, d, Q, id_hash, sig, ip, iq = _id_material(E, r)
+        fn = "bignIdSign2" if det else "bignIdSign"
+        h = rb(r, cv.no)
+        args = [OUT("id_sig", _sig_len(cv.l)), IN("params", cv.image), IN("oid_der", cv.oid_der), V("oid_len", len(cv.oid_der)),
+                IN("id_hash", id_hash), IN("hash", h), IN("id_privkey", ip)]
+        if det:
+            tl = r.choice((0, 1, 16, 40))
+            args += [V("t", 0), V("t_len", 0)] if r.random() < 0.3 else [IN("t", rb(r, tl)), V("t_len", tl)]
+        else:
+            args += E.rng_args(r)
+        cases = params_cases(fn, cv, "bign.h", r, full=False) + oid_cases(fn, cv, "bign.h", r)
+        # bignIdExtract reduces mod q, so values >= q cannot come from it; 0 is not excluded by the header and is not tested
+        cases += [c for c in privkey_cases(fn, cv, "bign.h", name="id_privkey",
+                  quote="bign.h %s \\expect{ERR_BAD_PRIVKEY} Ключ id_privkey получен с помощью функции bignIdExtract()" % fn)
+                  if c["cls"] != "0"]
+        if not det:
+            cases.append(rng_null_case(fn, "bign.h"))
+        return {"args": args, "cases": cases}
+    return build
+
+
+ROWS["bignIdSign"] = Row(_idsign_row(False))
+ROWS["bignIdSign2"] = Row(_idsign_row(True))
+
+
+@row("bignIdVerify")
+def _bign_idverify(E, r):
+    lib = E.lib
+    cv, d, Q, id_hash, sig, ip, iq = _id_material(E, r)
+    h = rb(r, cv.no)
+    s = lib.alloc(_sig_len(cv.l))
+    E.call_ok("bignIdSign2", s, lib.mk(cv.image), lib.mk(cv.oid_der), len(cv.oid_der), lib.mk(id_hash), lib.mk(h), lib.mk(ip), 0, 0)
+    id_sig = lib.rd(s, _sig_len(cv.l))
+    lib.release()
+    args = [IN("params", cv.image), IN("oid_der", cv.oid_der), V("oid_len", len(cv.oid_der)), IN("id_hash", id_hash), IN("hash", h),
+            IN("id_sig", id_sig), IN("id_pubkey", iq), IN("pubkey", Q)]
+    cases = params_cases("bignIdVerify", cv, "bign.h", r, full=False) + oid_cases("bignIdVerify", cv, "bign.h", r)
+    qk = "bign.h bignIdVerify \\expect{ERR_BAD_PUBKEY} открытый ключ id_pubkey получен с помощью функции bignIdExtract(); открытый ключ pubkey корректен"
+    q = "bign.h bignIdVerify \\remark При нарушении ограничений на ЭЦП возвращается код ERR_BAD_SIG"
+    cases += pubkey_cases("bignIdVerify", cv, "bign.h", Q, r, expect=("ERR_BAD_PUBKEY", "ERR_BAD_SIG"), quote=qk + " / " + q)
+    cases += pubkey_cases("bignIdVerify", cv, "bign.h", iq, r, name="id_pubkey", expect=("ERR_BAD_PUBKEY", "ERR_BAD_SIG"), quote=qk + " / " + q)
+    n0 = len(id_sig) - cv.no
+    cases.append(C("id_sig", "S0-bit-flipped", m_in("id_sig", _flip(id_sig, r.randrange(n0), 1 << r.randrange(8))), "ERR_BAD_SIG", q, "auth"))
+    cases.append(C("id_sig", "S1-bit-flipped", m_in("id_sig", _flip(id_sig, n0 + r.randrange(cv.no - 1), 1 << r.randrange(8))), "ERR_BAD_SIG", q, "auth"))
+    cases.append(C("id_sig", "S1=q", m_in("id_sig", id_sig[:n0] + cv.q.to_bytes(cv.no, "little")), "ERR_BAD_SIG", q, "auth"))
+    cases.append(C("hash", "bit-flipped", m_in("hash", _flip(h, r.randrange(cv.no), 1 << r.randrange(8))), "ERR_BAD_SIG", q, "auth"))
+    cases.append(C("id_hash", "bit-flipped", m_in("id_hash", _flip(id_hash, r.randrange(cv.no), 1 << r.randrange(8))), "ERR_BAD_SIG", q, "auth"))
+    return {"args": args, "cases": cases}
+
+
+GROUPS += [
+    ("bign-keys", ["bignParamsStd", "bignParamsVal", "bignParamsGen", "bignKeypairGen", "bignKeypairVal", "bignPubkeyVal", "bignPubkeyCalc", "bignDH"], 4, 16),
+    ("bign-sign", ["bignSign", "bignSign2", "bignVerify"], 4, 16),
+    ("bign-keyt", ["bignKeyWrap", "bignKeyUnwrap"], 4, 16),
+    ("bign-id", ["bignIdExtract", "bignIdSign", "bignIdSign2", "bignIdVerify"], 3, 12),
+    ("bign96", ["bign96ParamsStd", "bign96ParamsVal", "bign96KeypairGen", "bign96KeypairVal", "bign96PubkeyVal", "bign96PubkeyCalc",
+                "bign96Sign", "bign96Sign2", "bign96Verify"], 4, 16),
+]
+SPLIT.update({"bign-keys": (2, 4), "bign-sign": (2, 4), "bign-keyt": (2, 4), "bign-id": (2, 4), "bign96": (2, 4)})
+
+
+# ===========================================================================
+# bake.h (Start / SWU; Run* excluded; the Step* functions have ordering \expect only) and btok BAUTH Start
+# ===========================================================================
+
+class _BakeSettings(ctypes.Structure):
+    _fields_ = [("kca", ctypes.c_int), ("kcb", ctypes.c_int), ("helloa", ctypes.c_void_p), ("helloa_len", ctypes.c_size_t),
+                ("hellob", ctypes.c_void_p), ("hellob_len", ctypes.c_size_t), ("rng", ctypes.c_void_p), ("rng_state", ctypes.c_void_p)]
+
+
+class _BakeCert(ctypes.Structure):
+    _fields_ = [("data", ctypes.c_void_p), ("len", ctypes.c_size_t), ("val", ctypes.c_void_p)]
+
+
+CERTVAL = ctypes.CFUNCTYPE(ctypes.c_uint32, ctypes.c_void_p, ctypes.c_void_p, ctypes.c_void_p, ctypes.c_size_t)
+
+
+def _cv_tail(pubkey, params, data, ln):
+    """certificate = name || pubkey: hands out the trailing l/2 octets"""
+    try:
+        n = int.from_bytes(ctypes.string_at(params, 8), "little") // 2
+        if ln < n:
+            return errcode("ERR_BAD_CERT")
+        if pubkey:
+            ctypes.memmove(pubkey, ctypes.string_at(data + (ln - n), n), n)
+        return 0
+    except BaseException:      # noqa
+        return errcode("ERR_BAD_CERT")
+
+
+def _cv_reject(pubkey, params, data, ln):
+    return errcode("ERR_BAD_CERT")
+
+
+_CB["py:cv_tail"] = CERTVAL(_cv_tail)
+_CB["py:cv_reject"] = CERTVAL(_cv_reject)
+
+
+def _settings_struct(kca, kcb, hello, rng=True):
+    s = _BakeSettings(kca, kcb, 0, len(hello[0]) if hello[0] is not None else 0, 0, len(hello[1]) if hello[1] is not None else 0, 0, 0)
+    ptrs = []
+    if hello[0] is not None:
+        ptrs.append((_BakeSettings.helloa.offset, "helloa"))
+    if hello[1] is not None:
+        ptrs.append((_BakeSettings.hellob.offset, "hellob"))
+    if rng:
+        ptrs += [(_BakeSettings.rng.offset, ("fn", GEN_SYM)), (_BakeSettings.rng_state.offset, "rng_state")]
+    return STRUCT("settings", bytes(s), ptrs)
+
+
+def _cert_struct(datalen, val="py:cv_tail"):
+    c = _BakeCert(0, datalen, 0)
+    ptrs = [(_BakeCert.data.offset, "certdata")]
+    if val:
+        ptrs.append((_BakeCert.val.offset, ("fn", val)))
+    return STRUCT("cert", bytes(c), ptrs)
+
+
+def _start_row(fn, keepfn, hdr, with_cert, kc_rule):
+    """kc_rule: None | 'both' (kca == kcb == TRUE) | 'kca'"""
+    def build(E, r):
+        lib = E.lib
+        cv = curve(E, r.choice((128, 192, 256)))
+        d, Q = cv.keypair(E, r)
+        kca, kcb = (1, 1) if kc_rule == "both" else ((1, r.randrange(2)) if kc_rule == "kca" else (r.randrange(2), r.randrange(2)))
+        hello = [rb(r, r.choice((0, 5, 40))) if r.random() < 0.7 else None for _ in range(2)]
+        keep = getattr(lib, keepfn)(cv.l)
+        certdata = b"holder:" + Q
+        hid = [IN("helloa", hello[0] or b"", hid=True), IN("hellob", hello[1] or b"", hid=True),
+               RNGST("rng_state", rb(r, 32), rb(r, 32), hid=True), IN("certdata", certdata, hid=True)]
+        args = hid + [OUT("state", keep), IN("params", cv.image), _settings_struct(kca, kcb, hello)]
+        if with_cert:
+            args += [IN("privkey", d), _cert_struct(len(certdata))]
+        else:
+            pl = r.choice((0, 1, 8, 40))
+            args += [IN("pwd", rb(r, pl)), V("pwd_len", pl)]
+        h = "%s %s " % (hdr, fn)
+        cases = params_cases(fn, cv, hdr, r, full=False)
+        cases.append(C("settings.rng", "null", lambda a: put(a, _settings_struct(kca, kcb, hello, rng=False)), ("ERR_BAD_RNG", "ERR_BAD_INPUT"),
+                       h + "\\expect{ERR_BAD_RNG} Генератор settings->rng (с состоянием settings->rng_state) корректен / preamble: "
+                       "\\expect{ERR_BAD_INPUT} Все входные указатели ... корректны", "generator"))
+        if kc_rule == "both":
+            for a_, b_ in ((0, 1), (1, 0), (0, 0)):
+                cases.append(C("settings.kca,kcb", "%d,%d" % (a_, b_), (lambda a_=a_, b_=b_: (lambda a: put(a, _settings_struct(a_, b_, hello))))(),
+                               "ERR_BAD_INPUT", h + "\\expect{ERR_BAD_INPUT} settings->kca == TRUE && settings->kcb == TRUE", "flag"))
+        if kc_rule == "kca":
+            cases.append(C("settings.kca", 0, lambda a: put(a, _settings_struct(0, kcb, hello)), "ERR_BAD_INPUT",
+                           h + "\\expect{ERR_BAD_INPUT} settings->kca == TRUE", "flag"))
+        if with_cert:
+            qc = h + "\\expect{ERR_BAD_CERT} Сертификат cert корректен"
+            cases.append(C("cert", "rejected-by-cert.val", lambda a: put(a, _cert_struct(len(certdata), "py:cv_reject")), "ERR_BAD_CERT", qc, "cert"))
+            for k, how, bad in bad_pubkeys(cv, Q, r):
+                cases.append(C("cert", "pubkey-" + k, m_in("certdata", b"holder:" + bad), "ERR_BAD_CERT", qc, "cert", show=how))
+            cases.append(C("cert", "shorter-than-a-pubkey", m_many(m_in("certdata", Q[:cv.no]), lambda a: put(a, _cert_struct(cv.no))),
+                           "ERR_BAD_CERT", qc, "cert"))
+        return {"args": args, "cases": cases}
+    return build
+
+
+ROWS["bakeBMQVStart"] = Row(_start_row("bakeBMQVStart", "bakeBMQV_keep", "bake.h", True, None))
+ROWS["bakeBSTSStart"] = Row(_start_row("bakeBSTSStart", "bakeBSTS_keep", "bake.h", True, "both"))
+ROWS["bakeBPACEStart"] = Row(_start_row("bakeBPACEStart", "bakeBPACE_keep", "bake.h", False, None))
+ROWS["btokBAuthTStart"] = Row(_start_row("btokBAuthTStart", "btokBAuthT_keep", "btok.h", True, "kca"))
+ROWS["btokBAuthCTStart"] = Row(_start_row("btokBAuthCTStart", "btokBAuthCT_keep", "btok.h", True, "kca"))
+
+
+@row("bakeSWU")
+def _bake_swu(E, r):
+    cv = curve(E, r.choice((128, 192, 256)))
+    args = [OUT("pt", 2 * cv.no), IN("params", cv.image), IN("msg", rb(r, cv.no))]
+    return {"args": args, "cases": params_cases("bakeSWU", cv, "bake.h", r)}
+
+
+# ===========================================================================
+# btok.h: secure messaging
+# ===========================================================================
+
+class _ApduCmd(ctypes.Structure):
+    _fields_ = [("cla", ctypes.c_ubyte), ("ins", ctypes.c_ubyte), ("p1", ctypes.c_ubyte), ("p2", ctypes.c_ubyte),
+                ("rdf_len", ctypes.c_size_t), ("cdf_len", ctypes.c_size_t)]
+
+
+class _ApduResp(ctypes.Structure):
+    _fields_ = [("sw1", ctypes.c_ubyte), ("sw2", ctypes.c_ubyte), ("rdf_len", ctypes.c_size_t)]
+
+
+CMD_HDR, RESP_HDR = ctypes.sizeof(_ApduCmd), ctypes.sizeof(_ApduResp)
+
+
+def _sm_state(key, incs):
+    def f(lib):
+        st = lib.alloc(lib.btokSM_keep())
+        lib.btokSMStart(st, lib.mk(key))
+        for _ in range(incs):
+            lib.btokSMCtrInc(st)
+        return st
+    return PREP("state", f, "btokSMStart + %d x btokSMCtrInc" % incs)
+
+
+def _sm_cmd(r):
+    cdf = rb(r, r.choice((0, 1, 16, 40, 200)))
+    rdf_len = r.choice((0, 1, 20, 256))
+    cla = r.choice((0x00, 0x80, 0x03))
+    return bytes(_ApduCmd(cla, r.randrange(256), r.randrange(256), r.randrange(256), rdf_len, len(cdf))) + cdf, cdf
+
+
+def _sm_wrap_cmd(E, key, cmd):
+    lib = E.lib
+    st = _sm_state(key, 1)["f"](lib)
+    pc, pn = lib.mk(cmd), lib.alloc(8)
+    E.call_ok("btokSMCmdWrap", 0, pn, pc, st)
+    n = lib.rd_size(pn)
+    o = lib.alloc(n)
+    E.call_ok("btokSMCmdWrap", o, pn, pc, st)
+    out = lib.rd(o, n)
+    lib.release()
+    return out
+
+
+def _sm_wrap_resp(E, key, resp):
+    lib = E.lib
+    st = _sm_state(key, 2)["f"](lib)
+    pc, pn = lib.mk(resp), lib.alloc(8)
+    E.call_ok("btokSMRespWrap", 0, pn, pc, st)
+    n = lib.rd_size(pn)
+    o = lib.alloc(n)
+    E.call_ok("btokSMRespWrap", o, pn, pc, st)
+    out = lib.rd(o, n)
+    lib.release()
+    return out
+
+
+Q_SM_LOGIC = "\\expect{ERR_BAD_LOGIC} Непосредственно а момент %s счетчик SM принимает %s значение"
+
+
+@row("btokSMCmdWrap")
+def _sm_cmdwrap(E, r):
+    key = rb(r, 32)
+    cmd, cdf = _sm_cmd(r)
+    n = len(_sm_wrap_cmd(E, key, cmd))
+    args = [OUT("apdu", n), SZP("count", 0), IN("cmd", cmd), _sm_state(key, 1)]
+    h = "btok.h btokSMCmdWrap "
+    cases = [C("cmd.cla", "bit-0x04-set", m_in("cmd", bytes([cmd[0] | 0x04]) + cmd[1:]), "ERR_BAD_APDU",
+               h + "\\expect{ERR_BAD_APDU} В cmd->cla снят бит 0x04 (признак защиты)", "flag")]
+    for k in (0, 2):
+        cases.append(C("state.ctr", "even(%d)" % k, (lambda k=k: (lambda a: put(a, _sm_state(key, k))))(), "ERR_BAD_LOGIC",
+                       h + Q_SM_LOGIC % ("установки защиты (apdu != 0 && state != 0)", "нечетное"), "state"))
+    return {"args": args, "cases": cases}
+
+
+@row("btokSMCmdUnwrap")
+def _sm_cmdunwrap(E, r):
+    lib = E.lib
+    key = rb(r, 32)
+    while True:
+        cmd, cdf = _sm_cmd(r)
+        if len(cdf) >= 8:
+            break
+    apdu = _sm_wrap_cmd(E, key, cmd)
+    size = CMD_HDR + len(cdf)
+    args = [IO("cmd", bytes(size)), SZP("size", 0), IN("apdu", apdu), V("count", len(apdu)), _sm_state(key, 1)]
+    h = "btok.h btokSMCmdUnwrap "
+    qa = h + "\\expect{ERR_BAD_APDU} Если state != 0, то в cmd->cla установлен бит 0x04 (признак защиты). Если state == 0, то бит снят"
+    # plain encoding of the same command
+    pn = lib.alloc(8)
+    E.call_ok("btokSMCmdWrap", 0, pn, lib.mk(cmd), 0)
+    o = lib.alloc(lib.rd_size(pn))
+    E.call_ok("btokSMCmdWrap", o, pn, lib.mk(cmd), 0)
+    plain = lib.rd(o, lib.rd_size(pn))
+    lib.release()
+    cases = [C("apdu.cla", "protected-apdu,state=0", m_val("state", 0), "ERR_BAD_APDU", qa, "flag"),
+             C("apdu.cla", "plain-apdu,state!=0", m_many(m_in("apdu", plain), m_val("count", len(plain))), "ERR_BAD_APDU", qa, "flag")]
+    for k in (0, 2):
+        cases.append(C("state.ctr", "even(%d)" % k, (lambda k=k: (lambda a: put(a, _sm_state(key, k))))(), "ERR_BAD_LOGIC",
+                       h + Q_SM_LOGIC % ("снятия защиты (cmd != 0 && state != 0)", "нечетное"), "state"))
+    qt = h + "\\return ERR_OK в случае успеха и код ошибки в противном случае (контроль целостности)"
+    n = len(apdu)
+    for name, i in (("mac", n - 1 - r.randrange(8) - (1 if cmd[4:12] != bytes(8) and False else 0)), ("body", 5 + r.randrange(max(1, n - 5 - 12)))):
+        cases.append(C("apdu", name + "-bit-flipped", m_in("apdu", _flip(apdu, min(i, n - 1), 1 << r.randrange(8))), "ANY", qt, "release", secret=cdf))
+    cases.append(C("state.key", "other-key", lambda a: put(a, _sm_state(_flip(key, r.randrange(32), 1), 1)), "ANY", qt, "release", secret=cdf))
+    return {"args": args, "cases": cases}
+
+
+def _sm_resp(r):
+    rdf = rb(r, r.choice((0, 8, 20, 100)))
+    return bytes(_ApduResp(0x90, 0x00, len(rdf))) + rdf, rdf
+
+
+@row("btokSMRespWrap")
+def _sm_respwrap(E, r):
+    key = rb(r, 32)
+    resp, rdf = _sm_resp(r)
+    n = len(_sm_wrap_resp(E, key, resp))
+    args = [OUT("apdu", n), SZP("count", 0), IN("resp", resp), _sm_state(key, 2)]
+    cases = []
+    for k in (1, 3):
+        cases.append(C("state.ctr", "odd(%d)" % k, (lambda k=k: (lambda a: put(a, _sm_state(key, k))))(), "ERR_BAD_LOGIC",
+                       "btok.h btokSMRespWrap " + Q_SM_LOGIC % ("установки защиты (apdu != 0 && state != 0)", "четное"), "state"))
+    return {"args": args, "cases": cases}
+
+
+@row("btokSMRespUnwrap")
+def _sm_respunwrap(E, r):
+    key = rb(r, 32)
+    while True:
+        resp, rdf = _sm_resp(r)
+        if len(rdf) >= 8:
+            break
+    apdu = _sm_wrap_resp(E, key, resp)
+    args = [IO("resp", bytes(RESP_HDR + len(rdf))), SZP("size", 0), IN("apdu", apdu), V("count", len(apdu)), _sm_state(key, 2)]
+    h = "btok.h btokSMRespUnwrap "
+    cases = []
+    for k in (1, 3):
+        cases.append(C("state.ctr", "odd(%d)" % k, (lambda k=k: (lambda a: put(a, _sm_state(key, k))))(), "ERR_BAD_LOGIC",
+                       h + Q_SM_LOGIC % ("снятия защиты (resp != 0 && state != 0)", "четное"), "state"))
+    qt = h + "\\return ERR_OK в случае успеха и код ошибки в противном случае (контроль целостности)"
+    n = len(apdu)
+    cases.append(C("apdu", "mac-bit-flipped", m_in("apdu", _flip(apdu, n - 3 - r.randrange(8), 1 << r.randrange(8))), "ANY", qt, "release", secret=rdf))
+    cases.append(C("apdu", "body-bit-flipped", m_in("apdu", _flip(apdu, 3 + r.randrange(len(rdf)), 1 << r.randrange(8))), "ANY", qt, "release", secret=rdf))
+    cases.append(C("state.key", "other-key", lambda a: put(a, _sm_state(_flip(key, r.randrange(32), 1), 2)), "ANY", qt, "release", secret=rdf))
+    return {"args": args, "cases": cases}
+
+
+# ===========================================================================
+# btok.h: CV certificates (content rules of btokCVCCheck; the header names no error class -> any error)
+# ===========================================================================
+
+class _CVC(ctypes.Structure):
+    _fields_ = [("authority", ctypes.c_ubyte * 13), ("holder", ctypes.c_ubyte * 13), ("pubkey", ctypes.c_ubyte * 128),
+                ("pubkey_len", ctypes.c_size_t), ("from_", ctypes.c_ubyte * 6), ("until", ctypes.c_ubyte * 6),
+                ("hat_eid", ctypes.c_ubyte * 5), ("hat_esign", ctypes.c_ubyte * 2), ("sig", ctypes.c_ubyte * 96), ("sig_len", ctypes.c_size_t)]
+
+
+CVC_SIZE = ctypes.sizeof(_CVC)
+NAMECHARS = b"0123456789ABCDEFGHIJKLMNOPQRSTUVWXYZabcdefghijklmnopqrstuvwxyz"
+
+
+def _fld(b, n):
+    return (ctypes.c_ubyte * n)(*(bytes(b) + bytes(n))[:n])
+
+
+def _cvc_image(c):
+    s = _CVC(_fld(c["authority"], 13), _fld(c["holder"], 13), _fld(c["pubkey"], 128), c.get("pubkey_len", len(c["pubkey"])),
+             _fld(c["from"], 6), _fld(c["until"], 6), _fld(c["hat_eid"], 5), _fld(c["hat_esign"], 2), _fld(b"", 96), 0)
+    return bytes(s)
+
+
+def _ymd(y, m, d):
+    return bytes([y // 10, y % 10, m // 10, m % 10, d // 10, d % 10])
+
+
+def _cvc_content(E, r, self_signed=True):
+    cv = curve(E, r.choice((128, 192, 256)))
+    d, Q = cv.keypair(E, r)
+    name = bytes(r.choice(NAMECHARS) for _ in range(r.choice((8, 10, 12))))
+    other = bytes(r.choice(NAMECHARS) for _ in range(r.choice((8, 12))))
+    c = {"authority": name if self_signed else other, "holder": name, "pubkey": Q, "from": _ymd(22, 7, 7), "until": _ymd(30, 1, 31),
+         "hat_eid": rb(r, 5), "hat_esign": rb(r, 2)}
+    return cv, d, Q, c
+
+
+def _cvc_bad_contents(cv, Q, c, r):
+    q = ("btok.h btokCVCCheck: 'Проверка завершается успешно, если: cтроки authority и holder состоят из печатаемых символов; длины "
+         "лежат в диапазоне от 8 до 12; даты from и until корректны; from <= until; открытый ключ корректен' \\return ... код ошибки в противном случае")
+    out = []
+    mk = lambda **kw: _cvc_image(dict(c, **kw))
+    out.append(("holder", "length-7", mk(holder=c["holder"][:7])))
+    out.append(("holder", "length-0", mk(holder=b"")))
+    out.append(("authority", "length-7", mk(authority=c["authority"][:7])))
+    out.append(("holder", "non-printable", mk(holder=c["holder"][:3] + b"\x01" + c["holder"][4:])))
+    # 13 characters without a terminator inside the 13-octet field
+    out.append(("holder", "length-13-unterminated", mk(holder=(c["holder"] * 2)[:13])))
+    out.append(("from", "month-13", mk(**{"from": _ymd(22, 13, 1)})))
+    out.append(("until", "day-32", mk(until=_ymd(30, 1, 32))))
+    out.append(("from", "octet>9", mk(**{"from": bytes([2, 10, 0, 1, 0, 1])})))
+    out.append(("from,until", "from>until", mk(**{"from": _ymd(30, 2, 1)})))
+    for k, how, bad in bad_pubkeys(cv, Q, r)[:3]:
+        out.append(("pubkey", k, mk(pubkey=bad)))
+    out.append(("pubkey_len", "l/2-1", mk(pubkey=Q[:-1])))
+    out.append(("pubkey_len", "0-in-Check", None))
+    return q, [x for x in out if x[2] is not None]
+
+
+@row("btokCVCCheck")
+def _cvc_check(E, r):
+    cv, d, Q, c = _cvc_content(E, r)
+    args = [IN("cvc", _cvc_image(c))]
+    q, bad = _cvc_bad_contents(cv, Q, c, r)
+    return {"args": args, "cases": [C("cvc." + f, k, m_in("cvc", img), "ANY", q, "cvc") for f, k, img in bad]}
+
+
+def _cvc_wrap(E, c, d):
+    lib = E.lib
+    pc, pl, pk = lib.mk(_cvc_image(c)), lib.alloc(8), lib.mk(d)
+    E.call_ok("btokCVCWrap", 0, pl, pc, pk, len(d))
+    n = lib.rd_size(pl)
+    o = lib.alloc(n)
+    E.call_ok("btokCVCWrap", o, pl, pc, pk, len(d))
+    out = lib.rd(o, n)
+    lib.release()
+    return out
+
+
+@row("btokCVCWrap")
+def _cvc_wrap_row(E, r):
+    cv, d, Q, c = _cvc_content(E, r)
+    cert = _cvc_wrap(E, c, d)
+    args = [OUT("cert", len(cert)), SZP("cert_len", 0), IO("cvc", _cvc_image(c)), IN("privkey", d), V("privkey_len", len(d))]
+    q, bad = _cvc_bad_contents(cv, Q, c, r)
+    q = "btok.h btokCVCWrap: 'Непосредственно перед созданием сертификата проверяется содержание cvc' / " + q
+    return {"args": args, "cases": [C("cvc." + f, k, (lambda img=img: (lambda a: put(a, IO("cvc", img))))(), "ANY", q, "cvc") for f, k, img in bad]}
+
+
+@row("btokCVCUnwrap")
+def _cvc_unwrap_row(E, r):
+    cv, d, Q, c = _cvc_content(E, r)
+    cert = _cvc_wrap(E, c, d)
+    _, Q2 = cv.keypair(E, r)
+    args = [IO("cvc", bytes(CVC_SIZE)), IN("cert", cert), V("cert_len", len(cert)), IN("pubkey", Q), V("pubkey_len", len(Q))]
+    h = "btok.h btokCVCUnwrap "
+    qs = h + "'Проверка завершается успешно, если: ... подпись cert признается корректной на открытом ключе pubkey' \\return ... код ошибки в противном случае"
+    cases = [C("cert", "signature-bit-flipped", m_in("cert", _flip(cert, len(cert) - 1 - r.randrange(len(Q) // 2), 1 << r.randrange(8))), "ANY", qs, "auth"),
+             C("cert", "body-bit-flipped", m_in("cert", _flip(cert, 12 + r.randrange(8), 1)), "ANY", qs, "auth"),
+             C("pubkey", "other-valid-key", m_in("pubkey", Q2), "ANY", qs, "auth")]
+    ql = h + "\\remark Длина cert должна в точности равняться cert_len. Противное считается ошибкой формата"
+    cases.append(C("cert_len", "len-1", m_many(m_in("cert", cert[:-1]), m_val("cert_len", len(cert) - 1)), "ERR_BAD_FORMAT", ql, "length"))
+    cases.append(C("cert_len", "len+1", m_many(m_in("cert", cert + b"\0"), m_val("cert_len", len(cert) + 1)), "ERR_BAD_FORMAT", ql, "length"))
+    cases.append(C("cert_len", 0, m_many(m_in("cert", b""), m_val("cert_len", 0)), "ERR_BAD_FORMAT", ql, "length"))
+    qp = h + "'Может передаваться нулевая длина pubkey_len, и тогда: ... индуцируется ошибка, если pubkey != 0 && pubkey != cvc->pubkey'"
+    cases.append(C("pubkey_len", "0-with-foreign-pubkey", m_val("pubkey_len", 0), "ANY", qp, "length"))
+    return {"args": args, "cases": cases}
+
+
+@row("btokCVCMatch")
+def _cvc_match_row(E, r):
+    cv, d, Q, c = _cvc_content(E, r)
+    cert = _cvc_wrap(E, c, d)
+    d2, _ = cv.keypair(E, r)
+    args = [IN("cert", cert), V("cert_len", len(cert)), IN("privkey", d), V("privkey_len", len(d))]
+    q = "btok.h btokCVCMatch: 'Проверка завершается успешно, если: cert имеет корректный формат; открытый ключ cert соответствует privkey' \\return ... код ошибки в противном случае"
+    cases = [C("privkey", "other-valid-key", m_in("privkey", d2), "ANY", q, "auth"),
+             C("cert_len", "len-1", m_many(m_in("cert", cert[:-1]), m_val("cert_len", len(cert) - 1)), "ANY", q, "length"),
+             C("cert", "tag-changed", m_in("cert", bytes([cert[0] ^ 0x20]) + cert[1:]), "ANY", q, "identifier")]
+    cases += [C("privkey", k, m_in("privkey", v), "ANY", q, "privkey") for k, v in bad_privkeys(cv)]
+    return {"args": args, "cases": cases}
+
+
+# ===========================================================================
+# bpki.h
+# ===========================================================================
+
+def _bpki_wrap(E, fn, key, pwd, salt, it):
+    lib = E.lib
+    pn = lib.alloc(8)
+    E.call_ok(fn, 0, pn, 0, len(key), 0, len(pwd), 0, it)
+    n = lib.rd_size(pn)
+    o = lib.alloc(n)
+    E.call_ok(fn, o, pn, lib.mk(key), len(key), lib.mk(pwd), len(pwd), lib.mk(salt), it)
+    out = lib.rd(o, n)
+    lib.release()
+    return out
+
+
+def _bpki_material(E, which, klen):
+    """one container per (kind, key length) and worker: PBKDF2 with 10000 iterations is the expensive part"""
+    def f():
+        r = __import__("random").Random("%d/bpki/%s/%d" % (E.base, which, klen))
+        key = rb(r, klen)
+        if which == "share":
+            key = bytes([1 + r.randrange(16)]) + key[1:]
+        pwd, salt = rb(r, r.choice((1, 8, 20))), rb(r, 8)
+        epki = _bpki_wrap(E, "bpkiPrivkeyWrap" if which == "priv" else "bpkiShareWrap", key, pwd, salt, 10000)
+        return key, pwd, salt, epki
+    return E.memo(("bpki", which, klen), f)
+
+
+def _wrap_row(fn, which, lens, q_len, cls_len):
+    def build(E, r):
+        klen = r.choice(lens)
+        key, pwd, salt, epki = _bpki_material(E, which, klen)
+        keyarg = "privkey" if which == "priv" else "share"
+        args = [OUT("epki", len(epki)), SZP("epki_len", 0), IN(keyarg, key), V(keyarg + "_len", klen), IN("pwd", pwd), V("pwd_len", len(pwd)),
+                IN("salt", salt), V("iter", 10000)]
+        h = "bpki.h %s " % fn
+        cases = []
+        bad = (0, 1, 31, 33, 47, 49, 63, 65, 128) if which == "priv" else (0, 1, 16, 18, 24, 26, 32, 34, 64)
+        for v in bad:
+            data = (bytes([key[0]]) + bytes(range(1, 200)))[:v]
+            cases.append(C(keyarg + "_len", v, m_many(m_val(keyarg + "_len", v), m_in(keyarg, data)), cls_len, h + q_len, "length"))
+        if which == "share":
+            for v in (0, 17, 18, 128, 255):
+                cases.append(C("share[0]", v, m_in("share", bytes([v]) + key[1:]), "ERR_BAD_SHAREKEY",
+                               h + "\\expect{ERR_BAD_SHAREKEY} Если share != 0, то 1 <= share[0] <= 16", "identifier"))
+        for v in (0, 1, 9999):
+            cases.append(C("iter", v, m_val("iter", v), "ERR_BAD_INPUT", h + "\\expect{ERR_BAD_INPUT} iter >= 10000", "count"))
+        return {"args": args, "cases": cases}
+    return build
+
+
+ROWS["bpkiPrivkeyWrap"] = Row(_wrap_row("bpkiPrivkeyWrap", "priv", (32, 48, 64), "\\expect{ERR_BAD_PRIVKEY} privkey_len \\in {32, 48, 64}", "ERR_BAD_PRIVKEY"))
+ROWS["bpkiShareWrap"] = Row(_wrap_row("bpkiShareWrap", "share", (17, 25, 33), "\\expect{ERR_BAD_SHAREKEY} share_len \\in {17, 25, 33}", "ERR_BAD_SHAREKEY"))
+
+
+def _unwrap_row(fn, which, lens):
+    def build(E, r):
+        klen = r.choice(lens)
+        key, pwd, salt, epki = _bpki_material(E, which, klen)
+        keyarg = "privkey" if which == "priv" else "share"
+        args = [OUT(keyarg, klen), SZP(keyarg + "_len", 0), IN("epki", epki), V("epki_len", len(epki)), IN("pwd", pwd), V("pwd_len", len(pwd))]
+        q = "bpki.h %s: 'Защита снимается на пароле [pwd_len]pwd' \\return ERR_OK, если ... успешно извлечен, и код ошибки в противном случае" % fn
+        n = len(epki)
+        cases = [C("pwd", "wrong-password", m_in("pwd", _flip(pwd, r.randrange(len(pwd)), 1 << r.randrange(8))), "ANY", q, "release", secret=key[1:] if which == "share" else key),
+                 C("epki", "last-octet-flipped", m_in("epki", _flip(epki, n - 1, 0x80)), "ANY", q, "release", secret=key),
+                 C("epki", "encrypted-part-bit-flipped", m_in("epki", _flip(epki, n - 2 - r.randrange(klen), 1 << r.randrange(8))), "ANY", q, "release", secret=key),
+                 C("epki_len", "truncated", m_many(m_in("epki", epki[:-1]), m_val("epki_len", n - 1)), "ANY", q, "release", secret=key)]
+        return {"args": args, "cases": cases}
+    return build
+
+
+ROWS["bpkiPrivkeyUnwrap"] = Row(_unwrap_row("bpkiPrivkeyUnwrap", "priv", (32, 48, 64)))
+
+
+def _share_container_with_number(E, klen, num):
+    """a well-formed, correctly protected container whose share carries the number num in its first octet: the valid
+    container is opened with the library's own PBKDF2 + KWP, one octet of the plaintext is changed, and it is re-protected"""
+    def f():
+        lib = E.lib
+        key, pwd, salt, epki = _bpki_material(E, "share", klen)
+        k = lib.alloc(32)
+        E.call_ok("beltPBKDF2", k, lib.mk(pwd), len(pwd), 10000, lib.mk(salt), 8)
+        kek = lib.rd(k, 32)
+        lib.release()
+        for ln in range(32, len(epki)):
+            o = lib.alloc(ln - 16)
+            ret = lib.beltKWPUnwrap(o, lib.mk(epki[-ln:]), ln, 0, lib.mk(kek), 32)
+            pki = lib.rd(o, ln - 16)
+            lib.release()
+            if ret == 0:
+                i = pki.find(key)
+                if i < 0:
+                    raise Harness("share not found in the opened container")
+                pki2 = pki[:i] + bytes([num]) + pki[i + 1:]
+                o = lib.alloc(ln)
+                E.call_ok("beltKWPWrap", o, lib.mk(pki2), len(pki2), 0, lib.mk(kek), 32)
+                out = epki[:-ln] + lib.rd(o, ln)
+                lib.release()
+                return out
+        raise Harness("could not open the share container")
+    return E.memo(("bpki-share-num", klen, num), f)
+
+
+def _share_unwrap(E, r):
+    base = _unwrap_row("bpkiShareUnwrap", "share", (17, 25, 33))(E, r)
+    klen = len(arg(base["args"], "epki")["data"]) and arg(base["args"], "share")["size"]
+    q = "bpki.h bpkiShareUnwrap \\expect{ERR_BAD_SECKEY} Если share != 0, то 1 <= share[0] <= 16"
+    for num in (0, 17, 255):
+        e2 = _share_container_with_number(E, klen, num)
+        base["cases"].append(C("share[0]", num, m_many(m_in("epki", e2), m_val("epki_len", len(e2))), "ERR_BAD_SECKEY", q, "identifier"))
+    return base
+
+
+ROWS["bpkiShareUnwrap"] = Row(_share_unwrap)
+
+CSR_HEX = ("3082017A30820134020100305F3115301306035504030C0C524F4245525420534D495448310E300C06035504040C05534D495448310F300D060355042A0C06"
+           "524F42455254311830160603550405130F50415347422D353333333234343238310B3009060355040613024742305D3018060A2A7000020022652D0201060A2A70"
+           "00020022652D0301034100F64CDDFFE4D546EF484471583FAEBA9A38061084E280BF996F90BA6AF0DB6620F59ABAA7AD29D4E7D1CA0C21DD9E32D485F9E74084"
+           "1F4317CA9481503D1F1B50A06F301F06092A864886F70D01090731120C102F494E464F3A65726970323334313233304C06092A864886F70D01090E313F303D30"
+           "170603551D200410300E300C060A2A7000020022654E023D30220603551D11041B30198117726F626572742E736D697468406578616D706C652E756B300D0609"
+           "2A7000020022652D0C050003310082B4F9F934E3FD457F5DF06AE63A88E722E35D35F565551535BA94CEF9243011999DF2159E4F4BAC22AD8C3135A3BD26")
+
+
+def _csr_bad_formats(csr, r):
+    out = [("truncated", csr[:-1]), ("trailing-octet", csr + b"\0"), ("empty", b""), ("outer-tag-changed", bytes([0x31]) + csr[1:]),
+           ("outer-length+1", csr[:3] + bytes([csr[3] + 1]) + csr[4:])]
+    # the curve OID 1.2.112.0.2.0.34.101.45.3.1 -> ...3.2 (bign-curve384v1: not the documented parameter set)
+    i = csr.find(bytes.fromhex("060A2A7000020022652D0301"))
+    if i > 0:
+        out.append(("other-curve-oid", csr[:i + 11] + b"\x02" + csr[i + 12:]))
+    return out
+
+
+@row("bpkiCSRRewrap")
+def _csr_rewrap(E, r):
+    cv = curve(E, 128)
+    d, Q = cv.keypair(E, r)
+    csr = bytes.fromhex(CSR_HEX)
+    args = [IO("csr", csr), V("csr_len", len(csr)), IN("privkey", d), V("privkey_len", 32)]
+    h = "bpki.h bpkiCSRRewrap "
+    cases = []
+    for v in (0, 1, 24, 31, 33, 48, 64):
+        cases.append(C("privkey_len", v, m_many(m_val("privkey_len", v), m_in("privkey", (d * 2)[:v])), "ERR_NOT_IMPLEMENTED",
+                       h + "\\expect{ERR_NOT_IMPLEMENTED} privkey_len == 32", "length"))
+    qf = h + "\\expect{ERR_BAD_FORMAT} Формат запроса соответствует СТБ 34.101.17 / используются стандартные долговременные параметры bign-curve256v1 и алгоритм bign-with-hbelt"
+    for k, data in _csr_bad_formats(csr, r):
+        cases.append(C("csr", k, (lambda data=data: (lambda a: (put(a, IO("csr", data)), put(a, V("csr_len", len(data))))))(), "ERR_BAD_FORMAT", qf, "format"))
+    cases += [C("privkey", k, m_in("privkey", v), "ANY", "bpki.h bpkiCSRRewrap: \\return ... код ошибки в противном случае (открытый ключ строится по privkey: bign.h "
+                "bignPubkeyCalc \\expect{ERR_BAD_PRIVKEY})", "privkey") for k, v in bad_privkeys(cv)]
+    return {"args": args, "cases": cases}
+
+
+@row("bpkiCSRUnwrap")
+def _csr_unwrap(E, r):
+    csr = bytes.fromhex(CSR_HEX)
+    args = [OUT("pubkey", 64), SZP("pubkey_len", 0), IN("csr", csr), V("csr_len", len(csr))]
+    h = "bpki.h bpkiCSRUnwrap "
+    qf = h + "\\expect{ERR_BAD_FORMAT} Формат запроса соответствует СТБ 34.101.17 / используются стандартные долговременные параметры bign-curve256v1 и алгоритм bign-with-hbelt"
+    cases = [C("csr", k, m_many(m_in("csr", data), m_val("csr_len", len(data))), "ERR_BAD_FORMAT", qf, "format") for k, data in _csr_bad_formats(csr, r)]
+    qs = h + "'Подпись запроса проверяется на открытом ключе, вложенном в запрос' \\return ... код ошибки в противном случае"
+    cases.append(C("csr", "signature-bit-flipped", m_in("csr", _flip(csr, len(csr) - 1 - r.randrange(48), 1 << r.randrange(8))), "ANY", qs, "auth"))
+    cases.append(C("csr", "subject-octet-changed", m_in("csr", _flip(csr, 30 + r.randrange(10), 1)), "ANY", qs, "auth"))
+    return {"args": args, "cases": cases}
+
+
+GROUPS += [
+    ("bake-start", ["bakeSWU", "bakeBMQVStart", "bakeBSTSStart", "bakeBPACEStart", "btokBAuthTStart", "btokBAuthCTStart"], 4, 16),
+    ("btok-sm", ["btokSMCmdWrap", "btokSMCmdUnwrap", "btokSMRespWrap", "btokSMRespUnwrap"], 10, 50),
+    ("btok-cvc", ["btokCVCCheck", "btokCVCWrap", "btokCVCUnwrap", "btokCVCMatch"], 4, 16),
+    ("bpki", ["bpkiPrivkeyWrap", "bpkiPrivkeyUnwrap", "bpkiShareWrap", "bpkiShareUnwrap", "bpkiCSRRewrap", "bpkiCSRUnwrap"], 2, 6),
+]
+SPLIT.update({"bake-start": (1, 2), "btok-sm": (1, 2), "btok-cvc": (1, 2), "bpki": (2, 3)})
+
+
+# ===========================================================================
+# dstu.h
+# ===========================================================================
+
+class _DstuParams(ctypes.Structure):
+    _fields_ = [("p", ctypes.c_uint16 * 4), ("A", ctypes.c_ubyte), ("B", ctypes.c_ubyte * 64), ("n", ctypes.c_ubyte * 64),
+                ("c", ctypes.c_uint32), ("P", ctypes.c_ubyte * 128)]
+
+
+DSTU_NAMES = ["1.2.804.2.1.1.1.1.3.1.1.1.2.%d" % i for i in range(10)]
+
+
+class Dstu:
+    def __init__(self, E, name):
+        lib = E.lib
+        r = __import__("random").Random("%d/dstu/%s" % (E.base, name))
+        size = ctypes.sizeof(_DstuParams)
+        p = lib.alloc(size, 0)
+        E.call_ok("dstuParamsStd", p, lib.cstr(name))
+        raw = bytearray(lib.rd(p, size))
+        S = _DstuParams.from_buffer_copy(bytes(raw))
+        self.m = S.p[0]
+        self.no = (self.m + 7) // 8
+        self.n = int.from_bytes(bytes(S.n), "little")
+        self.order_no = (self.n.bit_length() + 7) // 8
+        # the standard gives no base point: generate one (valid call) and store it in params->P
+        gen, st = E.live_rng(r)
+        pt = lib.alloc(2 * self.no)
+        E.call_ok("dstuPointGen", pt, lib.mk(bytes(raw)), gen, st)
+        off = _DstuParams.P.offset
+        raw[off:off + 2 * self.no] = lib.rd(pt, 2 * self.no)
+        self.image = bytes(raw)
+        lib.release()
+
+    def patched(self, **kw):
+        S = _DstuParams.from_buffer_copy(self.image)
+        for k, v in kw.items():
+            if k == "p":
+                for i, x in enumerate(v):
+                    S.p[i] = x
+            else:
+                setattr(S, k, v)
+        return bytes(S)
+
+    def keypair(self, E, r):
+        lib = E.lib
+        gen, st = E.live_rng(r)
+        d, Q = lib.alloc(self.order_no), lib.alloc(2 * self.no)
+        E.call_ok("dstuKeypairGen", d, Q, lib.mk(self.image), gen, st)
+        out = lib.rd(d, self.order_no), lib.rd(Q, 2 * self.no)
+        lib.release()
+        return out
+
+
+def dstu(E, r, small=True):
+    name = r.choice(DSTU_NAMES[:3] if small else DSTU_NAMES)
+    return E.memo(("dstu", name), lambda: Dstu(E, name))
+
+
+def dstu_params_cases(fn, ds, what="Параметры params корректны"):
+    q = "dstu.h %s \\expect{ERR_BAD_PARAMS} %s" % (fn, what)
+    S = _DstuParams.from_buffer_copy(ds.image)
+    p = list(S.p)
+    out = []
+    for m in (0, 1, 159, 510, 511, 65535):
+        out.append(C("params.p[0]", m, m_in("params", ds.patched(p=[m, min(p[1], m), min(p[2], m), min(p[3], m)])), "ERR_BAD_PARAMS",
+                     q + " (dstu.h: степень расширения m, максимальная размерность соответствует степени 509)", "level"))
+    for a in (2, 3, 255):
+        out.append(C("params.A", a, m_in("params", ds.patched(A=a)), "ERR_BAD_PARAMS", q + " (dstu.h: коэффициент A (0 или 1))", "params"))
+    out.append(C("params.p", "normal-basis", m_in("params", ds.patched(p=[p[0], 0, 0, 0])), "ERR_BAD_PARAMS",
+                 q + " (dstu.h: Операции в нормальном базисе не реализованы / параметры в нормальном базисе не поддержаны)", "params"))
+    out.append(C("params.p", "p[1]>p[0]", m_in("params", ds.patched(p=[p[0], p[0] + 1, p[2], p[3]])), "ERR_BAD_PARAMS",
+                 q + " (dstu.h: p[0] >= p[1] >= p[2] >= p[3])", "params"))
+    if p[2] == 0:
+        out.append(C("params.p", "p[2]=0,p[3]!=0", m_in("params", ds.patched(p=[p[0], p[1], 0, 1])), "ERR_BAD_PARAMS",
+                     q + " (dstu.h: При p[2] == 0 должно выполняться также p[3] == 0)", "params"))
+    else:
+        out.append(C("params.p", "p[3]>p[2]", m_in("params", ds.patched(p=[p[0], p[1], p[2], p[2] + 1])), "ERR_BAD_PARAMS",
+                     q + " (dstu.h: p[0] >= p[1] >= p[2] >= p[3])", "params"))
+    return out
+
+
+ROWS["dstuParamsStd"] = Row(_std_row("dstuParamsStd", DSTU_NAMES, ctypes.sizeof(_DstuParams),
+                                     ["", "1.2.804.2.1.1.1.1.3.1.1.1.2.10", "1.2.804.2.1.1.1.1.3.1.1.1.2", "1.2.804.2.1.1.1.1.3.1.1.1.2.0.", "dstu163"]))
+
+
+@row("dstuParamsVal")
+def _dstu_params_val(E, r):
+    ds = dstu(E, r)
+    cases = [dict(c, expect={"ANY"}) for c in dstu_params_cases("dstuParamsVal", ds)]
+    for c in cases:
+        c["quote"] = "dstu.h dstuParamsVal: \\return ERR_OK, если параметры корректны, и код ошибки в противном случае / " + c["quote"]
+    off = _DstuParams.P.offset
+    bad = bytearray(ds.image)
+    bad[off + ds.no] ^= 1          # y + 1: off the curve (y'^2 + x y' = y^2 + x y  <=>  delta in {0, x})
+    if ds.image[off:off + ds.no] != bytes([1]) + bytes(ds.no - 1):
+        cases.append(C("params.P", "off-curve", m_in("params", bytes(bad)), "ANY",
+                       "dstu.h dstuParamsVal \\remark Проверяется корректность в том числе и базовой точки P", "params"))
+    return {"args": [IN("params", ds.image)], "cases": cases}
+
+
+@row("dstuPointGen")
+def _dstu_point_gen(E, r):
+    ds = dstu(E, r)
+    args = [OUT("point", 2 * ds.no), IN("params", ds.image)] + E.rng_args(r)
+    return {"args": args, "cases": dstu_params_cases("dstuPointGen", ds, "Параметры params (кроме базовой точки P) корректны")}
+
+
+def _dstu_off_curve(ds, Q, r):
+    """flip one bit delta of y: on the curve iff delta in {0, x}"""
+    x = int.from_bytes(Q[:ds.no], "little")
+    while True:
+        i = r.randrange(ds.m - 1)
+        if x != 1 << i:
+            return Q[:ds.no] + _flip(Q[ds.no:], i // 8, 1 << (i % 8))
+
+
+def _dstu_bad_points(ds, Q, r):
+    out = [("off-curve", "y-bit-flipped", _dstu_off_curve(ds, Q, r))]
+    if ds.m % 8:
+        # coordinate of degree >= m: not an element of the field
+        out.append(("coord-not-in-field", "x bit m set", _flip(Q, ds.no - 1, 1 << (ds.m % 8))))
+        out.append(("coord-not-in-field", "y=ff..ff", Q[:ds.no] + b"\xff" * ds.no))
+    return out
+
+
+@row("dstuPointVal")
+def _dstu_point_val(E, r):
+    ds = dstu(E, r)
+    d, Q = ds.keypair(E, r)
+    # a public key is d * P: a point of order n, as dstuPointVal requires
+    args = [IN("params", ds.image), IN("point", Q)]
+    cases = dstu_params_cases("dstuPointVal", ds)
+    q = "dstu.h dstuPointVal: \\return ERR_OK, если точка корректна, и код ошибки в противном случае"
+    cases += [C("point", k, m_in("point", v), "ANY", q, "pubkey", show=how) for k, how, v in _dstu_bad_points(ds, Q, r)]
+    return {"args": args, "cases": cases}
+
+
+@row("dstuPointCompress")
+def _dstu_point_compress(E, r):
+    ds = dstu(E, r)
+    d, Q = ds.keypair(E, r)
+    return {"args": [OUT("xpoint", ds.no), IN("params", ds.image), IN("point", Q)], "cases": dstu_params_cases("dstuPointCompress", ds)}
+
+
+@row("dstuPointRecover")
+def _dstu_point_recover(E, r):
+    lib = E.lib
+    ds = dstu(E, r)
+    d, Q = ds.keypair(E, r)
+    xp = lib.alloc(ds.no)
+    E.call_ok("dstuPointCompress", xp, lib.mk(ds.image), lib.mk(Q))
+    x = lib.rd(xp, ds.no)
+    lib.release()
+    return {"args": [OUT("point", 2 * ds.no), IN("params", ds.image), IN("xpoint", x)], "cases": dstu_params_cases("dstuPointRecover", ds)}
+
+
+@row("dstuKeypairGen")
+def _dstu_keypair_gen(E, r):
+    ds = dstu(E, r)
+    args = [OUT("privkey", ds.order_no), OUT("pubkey", 2 * ds.no), IN("params", ds.image)] + E.rng_args(r)
+    return {"args": args, "cases": dstu_params_cases("dstuKeypairGen", ds) + [rng_null_case("dstuKeypairGen", "dstu.h")]}
+
+
+@row("dstuSign")
+def _dstu_sign(E, r):
+    ds = dstu(E, r)
+    d, Q = ds.keypair(E, r)
+    ld = 16 * ds.order_no + r.choice((0, 16, 64))
+    hl = r.choice((1, 20, 32, ds.no, 64))
+    args = [OUT("sig", ld // 8), IN("params", ds.image), V("ld", ld), IN("hash", rb(r, hl)), V("hash_len", hl), IN("privkey", d)] + E.rng_args(r)
+    cases = dstu_params_cases("dstuSign", ds)
+    q1 = "dstu.h dstuSign \\expect{ERR_BAD_INPUT} ld делится на 16"
+    for v in (ld + 1, ld + 8, ld + 15):
+        cases.append(C("ld", "ld%%16=%d" % (v % 16), m_many(m_val("ld", v), lambda a, v=v: put(a, OUT("sig", (v + 7) // 8))), "ERR_BAD_INPUT", q1, "length", show=v))
+    q2 = "dstu.h dstuSign \\expect{ERR_BAD_INPUT} два вычета по модулю params->n укладываются в ld битов"
+    for v in (0, 16, 16 * ds.order_no - 16):
+        cases.append(C("ld", {0: "0", 16: "16"}.get(v, "16*order_no-16"), m_many(m_val("ld", v), lambda a, v=v: put(a, OUT("sig", v // 8))),
+                       "ERR_BAD_INPUT", q2, "length", show=v))
+    qk = "dstu.h dstuSign \\expect{ERR_BAD_PRIVKEY} Личный ключ privkey корректен"
+    no = ds.order_no
+    for k, v in (("0", 0), ("n", ds.n), ("n+1", ds.n + 1), ("2^(8 order_no)-1", (1 << (8 * no)) - 1)):
+        if v < 1 << (8 * no):
+            cases.append(C("privkey", k, m_in("privkey", v.to_bytes(no, "little")), "ERR_BAD_PRIVKEY", qk, "privkey"))
+    cases.append(rng_null_case("dstuSign", "dstu.h"))
+    return {"args": args, "cases": cases}
+
+
+@row("dstuVerify")
+def _dstu_verify(E, r):
+    lib = E.lib
+    ds = dstu(E, r)
+    d, Q = ds.keypair(E, r)
+    _, Q2 = ds.keypair(E, r)
+    ld = 16 * ds.order_no + r.choice((0, 16, 64))
+    h = rb(r, r.choice((20, 32, ds.no)))
+    gen, st = E.live_rng(r)
+    s = lib.alloc(ld // 8)
+    E.call_ok("dstuSign", s, lib.mk(ds.image), ld, lib.mk(h), len(h), lib.mk(d), gen, st)
+    sig = lib.rd(s, ld // 8)
+    lib.release()
+    args = [IN("params", ds.image), V("ld", ld), IN("hash", h), V("hash_len", len(h)), IN("sig", sig), IN("pubkey", Q)]
+    cases = dstu_params_cases("dstuVerify", ds)
+    qs = "dstu.h dstuVerify: \\return ERR_OK, если подпись корректна, и код ошибки в противном случае"
+    qk = "dstu.h dstuVerify \\expect{ERR_BAD_PUBKEY} Открытый ключ pubkey корректен / " + qs
+    for k, how, v in _dstu_bad_points(ds, Q, r):
+        cases.append(C("pubkey", k, m_in("pubkey", v), ("ERR_BAD_PUBKEY", "ERR_BAD_SIG"), qk, "pubkey", show=how))
+    cases.append(C("sig", "r-bit-flipped", m_in("sig", _flip(sig, r.randrange(ds.order_no - 1), 1 << r.randrange(8))), "ANY", qs, "auth"))
+    cases.append(C("sig", "s-bit-flipped", m_in("sig", _flip(sig, ld // 16 + r.randrange(ds.order_no - 1), 1 << r.randrange(8))), "ANY", qs, "auth"))
+    cases.append(C("hash", "bit-flipped", m_in("hash", _flip(h, 0, 1 << r.randrange(8))), "ANY", qs, "auth"))
+    cases.append(C("pubkey", "other-valid-key", m_in("pubkey", Q2), "ANY", qs, "auth"))
+    return {"args": args, "cases": cases}
+
+
+# ===========================================================================
+# g12s.h
+# ===========================================================================
+
+class _G12sParams(ctypes.Structure):
+    _fields_ = [("l", ctypes.c_uint32), ("p", ctypes.c_ubyte * 68), ("a", ctypes.c_ubyte * 68), ("b", ctypes.c_ubyte * 68),
+                ("q", ctypes.c_ubyte * 64), ("n", ctypes.c_uint32), ("xP", ctypes.c_ubyte * 68), ("yP", ctypes.c_ubyte * 68)]
+
+
+G12S_NAMES = ["1.2.643.2.2.35.0", "1.2.643.2.2.35.1", "1.2.643.2.2.35.2", "1.2.643.2.2.35.3", "1.2.643.2.9.1.8.1",
+              "1.2.643.7.1.2.1.2.0", "1.2.643.7.1.2.1.2.1", "1.2.643.7.1.2.1.2.2"]
+
+
+class G12s:
+    def __init__(self, E, name):
+        lib = E.lib
+        size = ctypes.sizeof(_G12sParams)
+        p = lib.alloc(size, 0)
+        E.call_ok("g12sParamsStd", p, lib.cstr(name))
+        self.image = lib.rd(p, size)
+        lib.release()
+        S = _G12sParams.from_buffer_copy(self.image)
+        self.l = S.l
+        self.mo = S.l // 8
+        i = lambda f: int.from_bytes(bytes(getattr(S, f)), "little")
+        self.p, self.a, self.b, self.q = i("p"), i("a"), i("b"), i("q")
+        self.no = (self.p.bit_length() + 7) // 8
+
+    def patched(self, **kw):
+        S = _G12sParams.from_buffer_copy(self.image)
+        for k, v in kw.items():
+            if isinstance(v, bytes):
+                ctypes.memmove(ctypes.addressof(S) + getattr(_G12sParams, k).offset, v, len(v))
+            else:
+                setattr(S, k, v)
+        return bytes(S)
+
+    def on_curve(self, x, y):
+        return x < self.p and y < self.p and (y * y - (x * x * x + self.a * x + self.b)) % self.p == 0
+
+    def keypair(self, E, r):
+        lib = E.lib
+        gen, st = E.live_rng(r)
+        d, Q = lib.alloc(self.mo), lib.alloc(2 * self.no)
+        E.call_ok("g12sKeypairGen", d, Q, lib.mk(self.image), gen, st)
+        out = lib.rd(d, self.mo), lib.rd(Q, 2 * self.no)
+        lib.release()
+        return out
+
+
+def g12s(E, r):
+    name = r.choice(G12S_NAMES)
+    return E.memo(("g12s", name), lambda: G12s(E, name))
+
+
+def g12s_params_cases(fn, g, expect="ERR_BAD_PARAMS"):
+    q = "g12s.h %s \\expect{ERR_BAD_PARAMS} Параметры params корректны" % fn
+    out = []
+    for l in (0, 1, 128, 255, 257, 384, 511, 513, 1024, U32_MAX) + ((512,) if g.l == 256 and g.no > 32 else ()):
+        out.append(C("params.l", l, m_in("params", g.patched(l=l)), expect, q + " (g12s.h: уровень стойкости (256 или 512))", "level"))
+    out.append(C("params.p", "even", m_in("params", g.patched(p=(g.p - 1).to_bytes(68, "little"))), expect, q + " (p -- простое)", "params"))
+    out.append(C("params.q", "even", m_in("params", g.patched(q=(g.q - 1).to_bytes(64, "little"))), expect, q + " (q -- простое)", "params"))
+    return out
+
+
+ROWS["g12sParamsStd"] = Row(_std_row("g12sParamsStd", G12S_NAMES, ctypes.sizeof(_G12sParams),
+                                     ["", "1.2.643.2.2.35.4", "1.2.643.7.1.2.1.2.3", "1.2.643.2.2.35", "1.2.643.2.2.35.0.", "gost"]))
+
+
+@row("g12sParamsVal", every=2)
+def _g12s_params_val(E, r):
+    g = g12s(E, r)
+    cases = g12s_params_cases("g12sParamsVal", g, expect="ANY")
+    for c in cases:
+        c["quote"] = "g12s.h g12sParamsVal: \\return ERR_OK, если параметры корректны, и код ошибки в противном случае"
+    return {"args": [IN("params", g.image)], "cases": cases}
+
+
+@row("g12sKeypairGen")
+def _g12s_keypair_gen(E, r):
+    g = g12s(E, r)
+    args = [OUT("privkey", g.mo), OUT("pubkey", 2 * g.no), IN("params", g.image)] + E.rng_args(r)
+    return {"args": args, "cases": g12s_params_cases("g12sKeypairGen", g) + [rng_null_case("g12sKeypairGen", "g12s.h")]}
+
+
+@row("g12sSign")
+def _g12s_sign(E, r):
+    g = g12s(E, r)
+    d, Q = g.keypair(E, r)
+    args = [OUT("sig", 2 * g.mo), IN("params", g.image), IN("hash", rb(r, g.mo)), IN("privkey", d)] + E.rng_args(r)
+    cases = g12s_params_cases("g12sSign", g)
+    qk = "g12s.h g12sSign \\expect{ERR_BAD_PRIVKEY} Личный ключ privkey корректен"
+    for k, v in (("0", 0), ("q", g.q), ("q+1", g.q + 1), ("2^l-1", (1 << g.l) - 1)):
+        cases.append(C("privkey", k, m_in("privkey", v.to_bytes(g.mo, "little")), "ERR_BAD_PRIVKEY", qk, "privkey"))
+    cases.append(rng_null_case("g12sSign", "g12s.h"))
+    return {"args": args, "cases": cases}
+
+
+@row("g12sVerify")
+def _g12s_verify(E, r):
+    lib = E.lib
+    g = g12s(E, r)
+    d, Q = g.keypair(E, r)
+    _, Q2 = g.keypair(E, r)
+    h = rb(r, g.mo)
+    gen, st = E.live_rng(r)
+    s = lib.alloc(2 * g.mo)
+    E.call_ok("g12sSign", s, lib.mk(g.image), lib.mk(h), lib.mk(d), gen, st)
+    sig = lib.rd(s, 2 * g.mo)
+    lib.release()
+    args = [IN("params", g.image), IN("hash", h), IN("sig", sig), IN("pubkey", Q)]
+    cases = g12s_params_cases("g12sVerify", g)
+    qs = "g12s.h g12sVerify \\remark При нарушении ограничений на ЭЦП возвращается код ERR_BAD_SIG"
+    qk = "g12s.h g12sVerify \\expect{ERR_BAD_PUBKEY} Открытый ключ pubkey корректен / " + qs
+    no = g.no
+    x, y = int.from_bytes(Q[:no], "little"), int.from_bytes(Q[no:], "little")
+    enc = lambda x, y: x.to_bytes(no, "little") + y.to_bytes(no, "little")
+    y2 = y ^ (1 << r.randrange(g.p.bit_length() - 2))
+    if y2 < g.p and not g.on_curve(x, y2):
+        cases.append(C("pubkey", "off-curve", m_in("pubkey", enc(x, y2)), ("ERR_BAD_PUBKEY", "ERR_BAD_SIG"), qk, "pubkey", show="y-bit-flipped"))
+    if not g.on_curve(0, 0):
+        cases.append(C("pubkey", "zero-point", m_in("pubkey", bytes(2 * no)), ("ERR_BAD_PUBKEY", "ERR_BAD_SIG"), qk, "pubkey"))
+    if g.p < (1 << (8 * no)) - 1:
+        cases.append(C("pubkey", "coord>=p", m_in("pubkey", enc(g.p, y)), ("ERR_BAD_PUBKEY", "ERR_BAD_SIG"), qk, "pubkey", show="x=p"))
+        cases.append(C("pubkey", "coord>=p", m_in("pubkey", Q[:no] + b"\xff" * no), ("ERR_BAD_PUBKEY", "ERR_BAD_SIG"), qk, "pubkey", show="y=ff..ff"))
+    cases.append(C("sig", "first-half-bit-flipped", m_in("sig", _flip(sig, 1 + r.randrange(g.mo - 1), 1 << r.randrange(8))), "ERR_BAD_SIG", qs, "auth"))
+    cases.append(C("sig", "second-half-bit-flipped", m_in("sig", _flip(sig, g.mo + 1 + r.randrange(g.mo - 1), 1 << r.randrange(8))), "ERR_BAD_SIG", qs, "auth"))
+    cases.append(C("sig", "all-zero", m_in("sig", bytes(2 * g.mo)), "ERR_BAD_SIG", qs, "auth"))
+    cases.append(C("sig", "all-ff", m_in("sig", b"\xff" * (2 * g.mo)), "ERR_BAD_SIG", qs, "auth"))
+    cases.append(C("hash", "bit-flipped", m_in("hash", _flip(h, r.randrange(g.mo), 1 << r.randrange(8))), "ERR_BAD_SIG", qs, "auth"))
+    cases.append(C("pubkey", "other-valid-key", m_in("pubkey", Q2), "ERR_BAD_SIG", qs, "auth"))
+    return {"args": args, "cases": cases}
+
+
+# ===========================================================================
+# pfok.h, stb99.h, rng.h
+# ===========================================================================
+
+class _PfokParams(ctypes.Structure):
+    _fields_ = [("l", ctypes.c_size_t), ("r", ctypes.c_size_t), ("n", ctypes.c_size_t), ("p", ctypes.c_ubyte * 368), ("g", ctypes.c_ubyte * 368)]
+
+
+class _PfokSeed(ctypes.Structure):
+    _fields_ = [("l", ctypes.c_size_t), ("zi", ctypes.c_uint16 * 31), ("li", ctypes.c_size_t * 20)]
+
+
+class _Stb99Params(ctypes.Structure):
+    _fields_ = [("l", ctypes.c_size_t), ("r", ctypes.c_size_t), ("p", ctypes.c_ubyte * 308), ("q", ctypes.c_ubyte * 33),
+                ("a", ctypes.c_ubyte * 308), ("d", ctypes.c_ubyte * 308)]
+
+
+class _Stb99Seed(ctypes.Structure):
+    _fields_ = [("l", ctypes.c_size_t), ("zi", ctypes.c_uint16 * 31), ("di", ctypes.c_size_t * 18), ("ri", ctypes.c_size_t * 10)]
+
+
+class Pfok:
+    def __init__(self, E, name):
+        lib = E.lib
+        size = ctypes.sizeof(_PfokParams)
+        p, s = lib.alloc(size, 0), lib.alloc(ctypes.sizeof(_PfokSeed), 0)
+        E.call_ok("pfokParamsStd", p, s, lib.cstr(name))
+        self.image, self.seed = lib.rd(p, size), lib.rd(s, ctypes.sizeof(_PfokSeed))
+        lib.release()
+        S = _PfokParams.from_buffer_copy(self.image)
+        self.l, self.r, self.n = S.l, S.r, S.n
+        self.no, self.mo, self.ko = (S.l + 7) // 8, (S.r + 7) // 8, (S.n + 7) // 8
+        self.p = int.from_bytes(bytes(S.p), "little")
+        self.g = int.from_bytes(bytes(S.g), "little")
+
+    def patched(self, **kw):
+        S = _PfokParams.from_buffer_copy(self.image)
+        for k, v in kw.items():
+            if isinstance(v, bytes):
+                ctypes.memmove(ctypes.addressof(S) + getattr(_PfokParams, k).offset, v, len(v))
+            else:
+                setattr(S, k, v)
+        return bytes(S)
+
+    def keypair(self, E, r):
+        lib = E.lib
+        gen, st = E.live_rng(r)
+        d, Q = lib.alloc(self.mo), lib.alloc(self.no)
+        E.call_ok("pfokKeypairGen", d, Q, lib.mk(self.image), gen, st)
+        out = lib.rd(d, self.mo), lib.rd(Q, self.no)
+        lib.release()
+        return out
+
+
+def pfok(E):
+    return E.memo(("pfok", "test"), lambda: Pfok(E, "test"))
+
+
+def pfok_params_cases(fn, pf, expect="ERR_BAD_PARAMS"):
+    q = "pfok.h %s \\expect{ERR_BAD_PARAMS} Параметры params корректны" % fn
+    out = []
+    for l in (0, 1, pf.l - 1, pf.l + 1, pf.l + 8, 1024, 2943, SIZE_MAX):
+        out.append(C("params.l", {pf.l - 1: "l-1", pf.l + 1: "l+1", pf.l + 8: "l+8"}.get(l, l), m_in("params", pf.patched(l=l)), expect,
+                     q + " (pfok.h: l и r выбираются из таблицы 5.1)", "level"))
+    for rr in (0, pf.r - 1, pf.r + 1, SIZE_MAX):
+        out.append(C("params.r", {pf.r - 1: "r-1", pf.r + 1: "r+1"}.get(rr, rr), m_in("params", pf.patched(r=rr)), expect,
+                     q + " (pfok.h: l и r выбираются из таблицы 5.1)", "level"))
+    for nn in (pf.l, pf.l + 1, SIZE_MAX):
+        out.append(C("params.n", {pf.l: "l", pf.l + 1: "l+1"}.get(nn, nn), m_in("params", pf.patched(n=nn)), expect, q + " (pfok.h pfokParamsVal: n < l)", "level"))
+    out.append(C("params.p", "even", m_in("params", pf.patched(p=(pf.p - 1).to_bytes(368, "little"))), expect, q + " (p -- простое число битовой длины l)", "params"))
+    out.append(C("params.g", "0", m_in("params", pf.patched(g=bytes(368))), expect, q + " (0 < g < p)", "params"))
+    out.append(C("params.g", "p", m_in("params", pf.patched(g=pf.p.to_bytes(368, "little"))), expect, q + " (0 < g < p)", "params"))
+    out.append(C("params.p", "unused-octets-nonzero", m_in("params", pf.patched(p=pf.p.to_bytes(pf.no, "little") + b"\x01" + bytes(367 - pf.no))), expect,
+                 q + " (pfok.h: Неиспользуемые октеты заполняются нулями)", "params"))
+    return out
+
+
+ROWS["pfokParamsStd"] = Row(_std_row("pfokParamsStd", ["test"], ctypes.sizeof(_PfokParams), ["", "1.2.112.0.2.0.1176.2.3.3.1", "1.2.112.0.2.0.1176.2.3.3.3", "Test", "test "]))
+ROWS["pfokParamsStd"].build = (lambda f: (lambda E, r: (lambda c: dict(c, args=[c["args"][0], IO("seed", bytes(ctypes.sizeof(_PfokSeed))), c["args"][1]]))(f(E, r))))(ROWS["pfokParamsStd"].build)
+ROWS["stb99ParamsStd"] = Row(_std_row("stb99ParamsStd", ["test"], ctypes.sizeof(_Stb99Params), ["", "1.2.112.0.2.0.1176.2.3.3.2", "1.2.112.0.2.0.1176.2.3.3.0", "Test", "tes"]))
+ROWS["stb99ParamsStd"].build = (lambda f: (lambda E, r: (lambda c: dict(c, args=[c["args"][0], IO("seed", bytes(ctypes.sizeof(_Stb99Seed))), c["args"][1]]))(f(E, r))))(ROWS["stb99ParamsStd"].build)
+
+
+@row("pfokKeypairGen")
+def _pfok_keypair_gen(E, r):
+    pf = pfok(E)
+    args = [OUT("privkey", pf.mo), OUT("pubkey", pf.no), IN("params", pf.image)] + E.rng_args(r)
+    return {"args": args, "cases": pfok_params_cases("pfokKeypairGen", pf) + [rng_null_case("pfokKeypairGen", "pfok.h")]}
+
+
+def _pfok_bad_pub(pf):
+    return [("0", bytes(pf.no)), ("p", pf.p.to_bytes(pf.no, "little")), ("p+1", (pf.p + 1).to_bytes(pf.no, "little")), ("ff..ff", b"\xff" * pf.no)]
+
+
+def _pfok_bad_priv(pf, d):
+    out = []
+    if pf.r % 8:
+        out.append(("bit-r-set", _flip(d, pf.mo - 1, 1 << (pf.r % 8))))
+        out.append(("ff..ff", b"\xff" * pf.mo))
+    return out
+
+
+@row("pfokPubkeyVal")
+def _pfok_pubkey_val(E, r):
+    pf = pfok(E)
+    d, Q = pf.keypair(E, r)
+    q = "pfok.h pfokPubkeyVal: \\return ERR_OK, если ключ корректен, и код ошибки в противном случае"
+    cases = pfok_params_cases("pfokPubkeyVal", pf) + [C("pubkey", k, m_in("pubkey", v), "ANY", q, "pubkey") for k, v in _pfok_bad_pub(pf)]
+    return {"args": [IN("params", pf.image), IN("pubkey", Q)], "cases": cases}
+
+
+@row("pfokPubkeyCalc")
+def _pfok_pubkey_calc(E, r):
+    pf = pfok(E)
+    d, Q = pf.keypair(E, r)
+    q = "pfok.h pfokPubkeyCalc \\expect{ERR_BAD_PRIVKEY} Личный ключ privkey корректен ([O_OF_B(r)]privkey: битовая длина личного ключа r)"
+    cases = pfok_params_cases("pfokPubkeyCalc", pf) + [C("privkey", k, m_in("privkey", v), "ERR_BAD_PRIVKEY", q, "privkey") for k, v in _pfok_bad_priv(pf, d)]
+    return {"args": [OUT("pubkey", pf.no), IN("params", pf.image), IN("privkey", d)], "cases": cases}
+
+
+@row("pfokDH")
+def _pfok_dh(E, r):
+    pf = pfok(E)
+    d, _ = pf.keypair(E, r)
+    _, Q = pf.keypair(E, r)
+    cases = pfok_params_cases("pfokDH", pf)
+    cases += [C("privkey", k, m_in("privkey", v), "ERR_BAD_PRIVKEY", "pfok.h pfokDH \\expect{ERR_BAD_PRIVKEY} Личный ключ privkey корректен", "privkey") for k, v in _pfok_bad_priv(pf, d)]
+    cases += [C("pubkey", k, m_in("pubkey", v), "ERR_BAD_PUBKEY", "pfok.h pfokDH \\expect{ERR_BAD_PUBKEY} Открытый ключ pubkey корректен", "pubkey") for k, v in _pfok_bad_pub(pf)]
+    return {"args": [OUT("sharekey", pf.ko), IN("params", pf.image), IN("privkey", d), IN("pubkey", Q)], "cases": cases}
+
+
+@row("pfokMTI")
+def _pfok_mti(E, r):
+    pf = pfok(E)
+    d, _ = pf.keypair(E, r)
+    d1, _ = pf.keypair(E, r)
+    _, Q = pf.keypair(E, r)
+    _, Q1 = pf.keypair(E, r)
+    cases = pfok_params_cases("pfokMTI", pf)
+    for name, dd in (("privkey", d), ("privkey1", d1)):
+        cases += [C(name, k, m_in(name, v), "ERR_BAD_PRIVKEY", "pfok.h pfokMTI \\expect{ERR_BAD_PRIVKEY} Личный ключ privkey корректен", "privkey") for k, v in _pfok_bad_priv(pf, dd)]
+    for name in ("pubkey", "pubkey1"):
+        cases += [C(name, k, m_in(name, v), "ERR_BAD_PUBKEY", "pfok.h pfokMTI \\expect{ERR_BAD_PUBKEY} Открытый ключ pubkey корректен", "pubkey") for k, v in _pfok_bad_pub(pf)]
+    return {"args": [OUT("sharekey", pf.ko), IN("params", pf.image), IN("privkey", d), IN("privkey1", d1), IN("pubkey", Q), IN("pubkey1", Q1)], "cases": cases}
+
+
+@row("pfokSeedVal")
+def _pfok_seed_val(E, r):
+    pf = pfok(E)
+    q = ("pfok.h pfokSeedVal: 'размерность l соответствует определенному уровню стойкости; zi[i] \\in {1, 2,..., 65256}; цепочка li начинается "
+         "с числа li[0] = l - 1 и заканчивается числом li[t] \\in {17,...,32}' \\return ... код ошибки в противном случае")
+
+    def patched(**kw):
+        S = _PfokSeed.from_buffer_copy(pf.seed)
+        for k, v in kw.items():
+            if k == "zi0":
+                S.zi[0] = v
+            elif k == "li0":
+                S.li[0] = v
+            else:
+                setattr(S, k, v)
+        return bytes(S)
+    cases = [C("seed.l", v, m_in("seed", patched(l=v)), "ANY", q, "level") for v in (0, 1, pf.l - 1, pf.l + 1, SIZE_MAX)]
+    cases += [C("seed.zi[0]", v, m_in("seed", patched(zi0=v)), "ANY", q, "params") for v in (0, 65257, 65535)]
+    cases += [C("seed.li[0]", v, m_in("seed", patched(li0=v)), "ANY", q, "params") for v in (0, pf.l, pf.l - 2)]
+    return {"args": [IN("seed", pf.seed)], "cases": cases}
+
+
+@row("stb99SeedVal")
+def _stb99_seed_val(E, r):
+    def f():
+        lib = E.lib
+        p, s = lib.alloc(ctypes.sizeof(_Stb99Params), 0), lib.alloc(ctypes.sizeof(_Stb99Seed), 0)
+        E.call_ok("stb99ParamsStd", p, s, lib.cstr("test"))
+        return lib.rd(p, ctypes.sizeof(_Stb99Params)), lib.rd(s, ctypes.sizeof(_Stb99Seed))
+    params, seed = E.memo(("stb99", "test"), f)
+    l = int.from_bytes(seed[:8], "little")
+    q = ("stb99.h stb99SeedVal: 'размерность l соответствует определенному уровню стойкости; zi[i] \\in {1, 2,..., 65256}; ...' "
+         "\\return ... код ошибки в противном случае")
+
+    def patched(**kw):
+        S = _Stb99Seed.from_buffer_copy(seed)
+        for k, v in kw.items():
+            if k == "zi0":
+                S.zi[0] = v
+            elif k == "ri0":
+                S.ri[0] = v
+            else:
+                setattr(S, k, v)
+        return bytes(S)
+    cases = [C("seed.l", v, m_in("seed", patched(l=v)), "ANY", q, "level") for v in (0, 1, l - 1, l + 1, SIZE_MAX)]
+    cases += [C("seed.zi[0]", v, m_in("seed", patched(zi0=v)), "ANY", q, "params") for v in (0, 65257, 65535)]
+    cases += [C("seed.ri[0]", v, m_in("seed", patched(ri0=v)), "ANY", q + " (ri[0] = r)", "params") for v in (0, 16, 1000)]
+    return {"args": [IN("seed", seed)], "cases": cases}
+
+
+@row("rngESRead")
+def _rng_esread(E, r):
+    # deterministic part of rng.h: the list of supported sources; count == 0 only probes the presence of a source
+    args = [SZP("read", 0), OUT("buf", 0), V("count", 0), IN("source", b"timer\0")]
+    q = "rng.h rngESRead: 'Поддерживаются следующие источники: trng, trng2, timer, sys' \\return ERR_OK ... или другой код ошибки"
+    cases = [C("source", "unsupported", m_in("source", s.encode() + b"\0"), "ANY", q, "identifier", show=s) for s in ("", "Timer", "timer2", "rng", "sys ")]
+    return {"args": args, "ok": ("ERR_OK", "ERR_FILE_NOT_FOUND"), "cases": cases}
+
+
+GROUPS += [
+    ("dstu", ["dstuParamsStd", "dstuParamsVal", "dstuPointGen", "dstuPointVal", "dstuPointCompress", "dstuPointRecover", "dstuKeypairGen",
+              "dstuSign", "dstuVerify"], 3, 12),
+    ("g12s", ["g12sParamsStd", "g12sParamsVal", "g12sKeypairGen", "g12sSign", "g12sVerify"], 4, 16),
+    ("pfok-stb99-rng", ["pfokParamsStd", "pfokSeedVal", "pfokKeypairGen", "pfokPubkeyVal", "pfokPubkeyCalc", "pfokDH", "pfokMTI", "stb99ParamsStd",
+                        "stb99SeedVal", "rngESRead"], 2, 8),
+]
+SPLIT.update({"dstu": (2, 4), "g12s": (2, 4), "pfok-stb99-rng": (1, 2)})
+
+
+# ===========================================================================
+# btok.h: issuing and validating CV certificates (conditions listed in the header; no class named -> any error)
+# ===========================================================================
+
+def _cvc_chain(E, r):
+    """self-signed CA certificate and the (not yet issued) content of a subordinate certificate"""
+    cv, da, Qa, ca = _cvc_content(E, r)
+    ca = dict(ca, **{"from": _ymd(20, 1, 1), "until": _ymd(40, 12, 31)})
+    certa = _cvc_wrap(E, ca, da)
+    db, Qb = cv.keypair(E, r)
+    holder = bytes(r.choice(NAMECHARS) for _ in range(r.choice((8, 11, 12))))
+    cb = {"authority": ca["holder"], "holder": holder, "pubkey": Qb, "from": _ymd(22, 7, 7), "until": _ymd(30, 1, 31),
+          "hat_eid": rb(r, 5), "hat_esign": rb(r, 2)}
+    return cv, da, Qa, ca, certa, db, Qb, cb
+
+
+def _cvc_iss(E, cb, certa, da):
+    lib = E.lib
+    pc, pl, pa, pk = lib.mk(_cvc_image(cb)), lib.alloc(8), lib.mk(certa), lib.mk(da)
+    E.call_ok("btokCVCIss", 0, pl, pc, pa, len(certa), pk, len(da))
+    n = lib.rd_size(pl)
+    o = lib.alloc(n)
+    E.call_ok("btokCVCIss", o, pl, pc, pa, len(certa), pk, len(da))
+    out = lib.rd(o, n)
+    lib.release()
+    return out
+
+
+@row("btokCVCIss")
+def _cvc_iss_row(E, r):
+    cv, da, Qa, ca, certa, db, Qb, cb = _cvc_chain(E, r)
+    cert = _cvc_iss(E, cb, certa, da)
+    args = [OUT("cert", len(cert)), SZP("cert_len", 0), IO("cvc", _cvc_image(cb)), IN("certa", certa), V("certa_len", len(certa)),
+            IN("privkeya", da), V("privkeya_len", len(da))]
+    q = ("btok.h btokCVCIss: 'Перед выпуском проверяются следующие условия: certa имеет корректный формат; btokCVCCheck2(cvc, cvca) == ERR_OK; "
+         "открытый ключ в certa соответствует личному ключу privkeya' \\return ... код ошибки в противном случае")
+    io = lambda img: (lambda a: put(a, IO("cvc", img)))
+    cases = [C("privkeya", "other-valid-key", m_in("privkeya", db), "ANY", q, "auth"),
+             C("certa", "truncated", m_many(m_in("certa", certa[:-1]), m_val("certa_len", len(certa) - 1)), "ANY", q, "format"),
+             C("cvc.authority", "!=cvca.holder", io(_cvc_image(dict(cb, authority=cb["holder"]))), "ANY", q, "cvc"),
+             C("cvc.from", "before-cvca.from", io(_cvc_image(dict(cb, **{"from": _ymd(19, 12, 31)}))), "ANY", q, "cvc"),
+             C("cvc.from", "after-cvca.until", io(_cvc_image(dict(cb, **{"from": _ymd(41, 1, 1), "until": _ymd(41, 1, 2)}))), "ANY", q, "cvc"),
+             C("cvc.holder", "length-7", io(_cvc_image(dict(cb, holder=cb["holder"][:7]))), "ANY", q, "cvc")]
+    return {"args": args, "cases": cases}
+
+
+@row("btokCVCVal")
+def _cvc_val_row(E, r):
+    cv, da, Qa, ca, certa, db, Qb, cb = _cvc_chain(E, r)
+    cert = _cvc_iss(E, cb, certa, da)
+    cv2, d2, Q2, c2 = _cvc_content(E, r)
+    other_ca = _cvc_wrap(E, dict(c2, authority=ca["holder"], holder=ca["holder"], **{"from": ca["from"], "until": ca["until"]}), d2)
+    args = [IN("cert", cert), V("cert_len", len(cert)), IN("certa", certa), V("certa_len", len(certa)), IN("date", _ymd(25, 6, 15))]
+    q = ("btok.h btokCVCVal: 'Проверка завершается успешно, если: certa имеет корректный формат; cert разбирается без ошибок на открытом ключе "
+         "из certa; btokCVCCheck2(cvc, cvca) == ERR_OK; date попадает в срок действия cert' \\return ... код ошибки в противном случае")
+    cases = [C("date", "before-from", m_in("date", _ymd(22, 7, 6)), "ANY", q, "time"),
+             C("date", "after-until", m_in("date", _ymd(30, 2, 1)), "ANY", q, "time"),
+             C("date", "month-13", m_in("date", _ymd(25, 13, 1)), "ANY", q, "time"),
+             C("cert", "signature-bit-flipped", m_in("cert", _flip(cert, len(cert) - 1 - r.randrange(cv.no), 1 << r.randrange(8))), "ANY", q, "auth"),
+             C("certa", "same-name-other-key", m_many(m_in("certa", other_ca), m_val("certa_len", len(other_ca))), "ANY", q, "auth"),
+             C("cert_len", "len-1", m_many(m_in("cert", cert[:-1]), m_val("cert_len", len(cert) - 1)), "ANY", q, "length")]
+    return {"args": args, "cases": cases}
+
+
+@row("btokCVCVal2")
+def _cvc_val2_row(E, r):
+    cv, da, Qa, ca, certa, db, Qb, cb = _cvc_chain(E, r)
+    cert = _cvc_iss(E, cb, certa, da)
+    _, Q2 = cv.keypair(E, r)
+    args = [IO("cvc", bytes(CVC_SIZE)), IN("cert", cert), V("cert_len", len(cert)), IN("cvca", _cvc_image(ca)), IN("date", _ymd(25, 6, 15))]
+    q = ("btok.h btokCVCVal2: 'Проверка завершается успешно, если: cert имеет корректный формат; имя издателя в cert совпадает с именем владельца "
+         "в cvca; подпись cert признается корректной на открытом ключе из cvca; срок действия, заданный в cvca, корректен; начало действия cert "
+         "не выходит за пределы срока действия cvca; date попадает в срок действия cert' \\return ... код ошибки в противном случае")
+    cases = [C("date", "before-from", m_in("date", _ymd(22, 7, 6)), "ANY", q, "time"),
+             C("date", "after-until", m_in("date", _ymd(30, 2, 1)), "ANY", q, "time"),
+             C("cvca.holder", "!=cert.authority", m_in("cvca", _cvc_image(dict(ca, holder=cb["holder"]))), "ANY", q, "cvc"),
+             C("cvca.pubkey", "other-valid-key", m_in("cvca", _cvc_image(dict(ca, pubkey=Q2))), "ANY", q, "auth"),
+             C("cvca.until", "before-cert.from", m_in("cvca", _cvc_image(dict(ca, until=_ymd(22, 7, 6)))), "ANY", q, "cvc"),
+             C("cvca.from", "month-13", m_in("cvca", _cvc_image(dict(ca, **{"from": _ymd(20, 13, 1)}))), "ANY", q, "cvc"),
+             C("cert", "signature-bit-flipped", m_in("cert", _flip(cert, len(cert) - 1 - r.randrange(cv.no), 1 << r.randrange(8))), "ANY", q, "auth")]
+    return {"args": args, "cases": cases}
+
+
+for _g in GROUPS:
+    if _g[0] == "btok-cvc":
+        _g[1].extend(["btokCVCIss", "btokCVCVal", "btokCVCVal2"])
+
+
+# ===========================================================================
+# btok.h: BAUTH step 5 (the only Step function with an \expect{ERR_...} clause)
+# ===========================================================================
+
+def _bauth_run(box, cv, kcb, dt, Qt, dct, Qct, seeds):
+    """both sides in one process up to the moment before btokBAuthTStep5 (valid calls only); returns M3 (kcb) or a dummy"""
+    def f(lib):
+        def side(startfn, keepfn, d, Q, seed):
+            data = lib.mk(b"holder:" + Q)
+            cert = lib.mk(bytes(_BakeCert(data, 7 + len(Q), fnaddr(lib, "py:cv_tail"))))
+            st_rng = start_gen(lib, seed, seed[::-1])
+            sett = lib.mk(bytes(_BakeSettings(1, kcb, 0, 0, 0, 0, lib.addr(GEN_SYM), st_rng)))
+            st = lib.alloc(getattr(lib, keepfn)(cv.l))
+            ret = getattr(lib, startfn)(st, lib.mk(cv.image), sett, lib.mk(d), cert)
+            if ret != 0:
+                raise Harness("setup: %s returned %s" % (startfn, errname(ret)))
+            return st, cert
+        t_st, t_cert = side("btokBAuthTStart", "btokBAuthT_keep", dt, Qt, seeds[0])
+        ct_st, ct_cert = side("btokBAuthCTStart", "btokBAuthCT_keep", dct, Qct, seeds[1])
+        m1 = lib.alloc(5 * cv.l // 8 + 16)
+        m2 = lib.alloc(8 + 16 if kcb else 8)
+        m3len = cv.l // 4 + 7 + len(Qct) + 8
+        m3 = lib.alloc(m3len)
+        for name, a in (("btokBAuthCTStep2", (m1, t_cert, ct_st)), ("btokBAuthTStep3", (m2, m1, t_st))) + \
+                ((("btokBAuthCTStep4", (m3, m2, ct_st)),) if kcb else ()):
+            ret = getattr(lib, name)(*a)
+            if ret != 0:
+                raise Harness("setup: %s returned %s" % (name, errname(ret)))
+        box["t_state"] = t_st
+        return m3
+    return f
+
+
+@row("btokBAuthTStep5")
+def _bauth_step5(E, r):
+    # l = 128 only: for l = 192, 256 btokBAuthCTStep4 (a setup call here) reads l/8 octets of Rt from M2 although btok.h and
+    # btokBAuthTStep3 define M2 = [8 + 16] -- a heap over-read that belongs to C04/C07, reported to the maintainer
+    cv = curve(E, 128)
+    dt, Qt = cv.keypair(E, r)
+    dct, Qct = cv.keypair(E, r)
+    seeds = (rb(r, 32), rb(r, 32))
+    m3len = cv.l // 4 + 7 + len(Qct) + 8
+
+    def make(kcb):
+        box = {}
+        return [PREP("in", _bauth_run(box, cv, kcb, dt, Qt, dct, Qct, seeds), "BAUTH run up to step 4, kcb=%d" % kcb), V("in_len", m3len),
+                FN("val_ct", "py:cv_tail"), PREP("state", lambda lib: box["t_state"], "T state after btokBAuthTStep3")]
+    q = "btok.h btokBAuthTStep5 \\expect{ERR_BAD_LOGIC} settings->kcb == TRUE, т.е. требуется аутентификация КТ перед Т"
+
+    def kcb0(a):
+        a[:] = make(0)
+    return {"args": make(1), "nodigest": ("in", "state"), "cases": [C("settings.kcb", 0, kcb0, "ERR_BAD_LOGIC", q, "flag")]}
+
+
+for _g in GROUPS:
+    if _g[0] == "bake-start":
+        _g[1].append("btokBAuthTStep5")
+
+
+# ===========================================================================
+# repetitions and workers per group: (quick, thorough).  Crash-prone rows (an ASSERT abort costs a worker restart and the
+# runner allows 25 restarts per job) are kept at a few repetitions per worker.
+# ===========================================================================
+
+REPS = {"belt-modes": (30, 150), "belt-disk": (25, 125), "belt-aead": (30, 150), "belt-fmt-e": (2, 6), "belt-fmt-d": (2, 6),
+        "bash-brng-botp": (30, 150), "bels": (12, 48), "bign-keys": (10, 50), "bign-sign": (10, 50), "bign-keyt": (10, 50),
+        "bign-id": (8, 40), "bign96": (10, 50), "bake-start": (10, 50), "btok-sm": (24, 120), "btok-cvc": (10, 50), "bpki": (4, 12),
+        "dstu": (6, 24), "g12s": (10, 50), "pfok-stb99-rng": (4, 16)}
+SPLIT = {"belt-modes": (3, 6), "belt-disk": (2, 4), "belt-aead": (3, 6), "belt-fmt-e": (1, 2), "belt-fmt-d": (1, 2),
+         "bash-brng-botp": (3, 6), "bels": (3, 6), "bign-keys": (2, 5), "bign-sign": (2, 5), "bign-keyt": (2, 5), "bign-id": (2, 5),
+         "bign96": (2, 5), "bake-start": (2, 4), "btok-sm": (2, 4), "btok-cvc": (2, 4), "bpki": (2, 4), "dstu": (3, 6), "g12s": (2, 5),
+         "pfok-stb99-rng": (2, 4)}
+GROUPS = [(g[0], g[1], REPS[g[0]][0], REPS[g[0]][1]) for g in GROUPS]
+
+
+@row("btokCVCCheck2")
+def _cvc_check2_row(E, r):
+    cv, da, Qa, ca, certa, db, Qb, cb = _cvc_chain(E, r)
+    args = [IN("cvc", _cvc_image(cb)), IN("cvca", _cvc_image(ca))]
+    q = ("btok.h btokCVCCheck2: 'Проверка завершается успешно, если: btokCVCCheck(cvc) == ERR_OK; cvc->authority == cvca->holder; даты cvca->from "
+         "и cvca->until корректны; cvca->from <= cvc->from && cvc->from <= cvca->until' \\return ... код ошибки в противном случае")
+    cases = [C("cvc.authority", "!=cvca.holder", m_in("cvc", _cvc_image(dict(cb, authority=cb["holder"]))), "ANY", q, "cvc"),
+             C("cvc.from", "before-cvca.from", m_in("cvc", _cvc_image(dict(cb, **{"from": _ymd(19, 12, 31)}))), "ANY", q, "cvc"),
+             C("cvc.from", "after-cvca.until", m_in("cvc", _cvc_image(dict(cb, **{"from": _ymd(41, 1, 1), "until": _ymd(41, 1, 2)}))), "ANY", q, "cvc"),
+             C("cvca.until", "day-32", m_in("cvca", _cvc_image(dict(ca, until=_ymd(40, 12, 32)))), "ANY", q, "cvc"),
+             C("cvca.from", "octet>9", m_in("cvca", _cvc_image(dict(ca, **{"from": bytes([2, 0, 0, 1, 0, 10])}))), "ANY", q, "cvc"),
+             C("cvc.holder", "length-7", m_in("cvc", _cvc_image(dict(cb, holder=cb["holder"][:7]))), "ANY", q, "cvc")]
+    return {"args": args, "cases": cases}
+
+
+for _g in GROUPS:
+    if _g[0] == "btok-cvc":
+        _g[1].append("btokCVCCheck2")
